@@ -9,6 +9,12 @@ type nat =
 | O
 | S of nat
 
+(** val option_map : ('a1 -> 'a2) -> 'a1 option -> 'a2 option **)
+
+let option_map f = function
+| Some a -> Some (f a)
+| None -> None
+
 (** val fst : ('a1 * 'a2) -> 'a1 **)
 
 let fst = function
@@ -37,12 +43,23 @@ type comparison =
 | Lt
 | Gt
 
-(** val add : nat -> nat -> nat **)
+module Coq__1 = struct
+ (** val add : nat -> nat -> nat **)
+ let rec add n0 m =
+   match n0 with
+   | O -> m
+   | S p -> S (add p m)
+end
+include Coq__1
 
-let rec add n0 m =
+(** val sub : nat -> nat -> nat **)
+
+let rec sub n0 m =
   match n0 with
-  | O -> m
-  | S p -> S (add p m)
+  | O -> n0
+  | S k -> (match m with
+            | O -> n0
+            | S l -> sub k l)
 
 type positive =
 | XI of positive
@@ -52,6 +69,11 @@ type positive =
 type n =
 | N0
 | Npos of positive
+
+type z =
+| Z0
+| Zpos of positive
+| Zneg of positive
 
 module Nat =
  struct
@@ -86,6 +108,45 @@ module Coq_Pos =
   | XI p -> XO (succ p)
   | XO p -> XI p
   | XH -> XO XH
+
+  (** val add : positive -> positive -> positive **)
+
+  let rec add x y =
+    match x with
+    | XI p ->
+      (match y with
+       | XI q -> XO (add_carry p q)
+       | XO q -> XI (add p q)
+       | XH -> XO (succ p))
+    | XO p ->
+      (match y with
+       | XI q -> XI (add p q)
+       | XO q -> XO (add p q)
+       | XH -> XI p)
+    | XH -> (match y with
+             | XI q -> XO (succ q)
+             | XO q -> XI q
+             | XH -> XO XH)
+
+  (** val add_carry : positive -> positive -> positive **)
+
+  and add_carry x y =
+    match x with
+    | XI p ->
+      (match y with
+       | XI q -> XI (add_carry p q)
+       | XO q -> XO (add_carry p q)
+       | XH -> XI (succ p))
+    | XO p ->
+      (match y with
+       | XI q -> XO (add_carry p q)
+       | XO q -> XI (add p q)
+       | XH -> XO (succ p))
+    | XH ->
+      (match y with
+       | XI q -> XI (succ q)
+       | XO q -> XO (succ q)
+       | XH -> XI XH)
 
   (** val pred_double : positive -> positive **)
 
@@ -153,6 +214,14 @@ module Coq_Pos =
        | XH -> double_pred_mask p)
     | XH -> IsNeg
 
+  (** val mul : positive -> positive -> positive **)
+
+  let rec mul x y =
+    match x with
+    | XI p -> add y (XO (mul p y))
+    | XO p -> XO (mul p y)
+    | XH -> y
+
   (** val size : positive -> positive **)
 
   let rec size = function
@@ -208,7 +277,7 @@ module Coq_Pos =
   (** val to_nat : positive -> nat **)
 
   let to_nat x =
-    iter_op add x (S O)
+    iter_op Coq__1.add x (S O)
 
   (** val of_succ_nat : nat -> positive **)
 
@@ -231,6 +300,15 @@ module N =
   | N0 -> N0
   | Npos p -> Npos (XO p)
 
+  (** val add : n -> n -> n **)
+
+  let add n0 m =
+    match n0 with
+    | N0 -> m
+    | Npos p -> (match m with
+                 | N0 -> n0
+                 | Npos q -> Npos (Coq_Pos.add p q))
+
   (** val sub : n -> n -> n **)
 
   let sub n0 m =
@@ -243,6 +321,15 @@ module N =
          (match Coq_Pos.sub_mask n' m' with
           | Coq_Pos.IsPos p -> Npos p
           | _ -> N0))
+
+  (** val mul : n -> n -> n **)
+
+  let mul n0 m =
+    match n0 with
+    | N0 -> N0
+    | Npos p -> (match m with
+                 | N0 -> N0
+                 | Npos q -> Npos (Coq_Pos.mul p q))
 
   (** val compare : n -> n -> comparison **)
 
@@ -366,6 +453,31 @@ let ascii_of_N = function
 let ascii_of_nat a =
   ascii_of_N (N.of_nat a)
 
+(** val n_of_digits : bool list -> n **)
+
+let rec n_of_digits = function
+| [] -> N0
+| b :: l' ->
+  N.add (if b then Npos XH else N0) (N.mul (Npos (XO XH)) (n_of_digits l'))
+
+(** val n_of_ascii : char -> n **)
+
+let n_of_ascii a =
+  (* If this appears, you're using Ascii internals. Please don't *)
+ (fun f c ->
+  let n = Char.code c in
+  let h i = (n land (1 lsl i)) <> 0 in
+  f (h 0) (h 1) (h 2) (h 3) (h 4) (h 5) (h 6) (h 7))
+    (fun a0 a1 a2 a3 a4 a5 a6 a7 ->
+    n_of_digits
+      (a0 :: (a1 :: (a2 :: (a3 :: (a4 :: (a5 :: (a6 :: (a7 :: [])))))))))
+    a
+
+(** val nat_of_ascii : char -> nat **)
+
+let nat_of_ascii a =
+  N.to_nat (n_of_ascii a)
+
 (** val map : ('a1 -> 'a2) -> 'a1 list -> 'a2 list **)
 
 let rec map f = function
@@ -377,6 +489,34 @@ let rec map f = function
 let rec forallb f = function
 | [] -> true
 | a :: l0 -> (&&) (f a) (forallb f l0)
+
+(** val seq : nat -> nat -> nat list **)
+
+let rec seq start = function
+| O -> []
+| S len0 -> start :: (seq (S start) len0)
+
+module Z =
+ struct
+  (** val opp : z -> z **)
+
+  let opp = function
+  | Z0 -> Z0
+  | Zpos x0 -> Zneg x0
+  | Zneg x0 -> Zpos x0
+
+  (** val to_nat : z -> nat **)
+
+  let to_nat = function
+  | Zpos p -> Coq_Pos.to_nat p
+  | _ -> O
+
+  (** val of_N : n -> z **)
+
+  let of_N = function
+  | N0 -> Z0
+  | Npos p -> Zpos p
+ end
 
 (** val eqb0 : char list -> char list -> bool **)
 
@@ -485,6 +625,72 @@ let dec_N n0 =
 let dec_nat n0 =
   dec_N (N.of_nat n0)
 
+(** val is_digit : char -> bool **)
+
+let is_digit c =
+  let n0 = nat_of_ascii c in
+  (&&)
+    (Nat.leb (S (S (S (S (S (S (S (S (S (S (S (S (S (S (S (S (S (S (S (S (S
+      (S (S (S (S (S (S (S (S (S (S (S (S (S (S (S (S (S (S (S (S (S (S (S (S
+      (S (S (S O)))))))))))))))))))))))))))))))))))))))))))))))) n0)
+    (Nat.leb n0 (S (S (S (S (S (S (S (S (S (S (S (S (S (S (S (S (S (S (S (S
+      (S (S (S (S (S (S (S (S (S (S (S (S (S (S (S (S (S (S (S (S (S (S (S (S
+      (S (S (S (S (S (S (S (S (S (S (S (S (S
+      O))))))))))))))))))))))))))))))))))))))))))))))))))))))))))
+
+(** val parse_N_acc : char list -> n -> n option **)
+
+let rec parse_N_acc s acc =
+  match s with
+  | [] -> Some acc
+  | c::r ->
+    if is_digit c
+    then parse_N_acc r
+           (N.add (N.mul acc (Npos (XO (XI (XO XH)))))
+             (N.of_nat
+               (sub (nat_of_ascii c) (S (S (S (S (S (S (S (S (S (S (S (S (S
+                 (S (S (S (S (S (S (S (S (S (S (S (S (S (S (S (S (S (S (S (S
+                 (S (S (S (S (S (S (S (S (S (S (S (S (S (S (S
+                 O)))))))))))))))))))))))))))))))))))))))))))))))))))
+    else None
+
+(** val parse_N : char list -> n option **)
+
+let parse_N s = match s with
+| [] -> None
+| _::_ -> parse_N_acc s N0
+
+(** val parse_Z : char list -> z option **)
+
+let parse_Z s = match s with
+| [] -> option_map Z.of_N (parse_N s)
+| a::r ->
+  (* If this appears, you're using Ascii internals. Please don't *)
+ (fun f c ->
+  let n = Char.code c in
+  let h i = (n land (1 lsl i)) <> 0 in
+  f (h 0) (h 1) (h 2) (h 3) (h 4) (h 5) (h 6) (h 7))
+    (fun b b0 b1 b2 b3 b4 b5 b6 ->
+    if b
+    then if b0
+         then option_map Z.of_N (parse_N s)
+         else if b1
+              then if b2
+                   then if b3
+                        then option_map Z.of_N (parse_N s)
+                        else if b4
+                             then if b5
+                                  then option_map Z.of_N (parse_N s)
+                                  else if b6
+                                       then option_map Z.of_N (parse_N s)
+                                       else option_map (fun n0 ->
+                                              Z.opp (Z.of_N n0)) (parse_N r)
+                             else option_map Z.of_N (parse_N s)
+                   else option_map Z.of_N (parse_N s)
+              else option_map Z.of_N (parse_N s)
+    else option_map Z.of_N (parse_N s))
+    a
+
 type sexp =
 | SAtom of char list
 | SList of sexp list
@@ -546,6 +752,17 @@ let rec d_list d = function
 let d_strs = function
 | SAtom _ -> None
 | SList l -> d_list d_str l
+
+(** val d_Z : sexp -> z option **)
+
+let d_Z = function
+| SAtom a -> parse_Z a
+| SList _ -> None
+
+(** val d_nat : sexp -> nat option **)
+
+let d_nat s =
+  option_map Z.to_nat (d_Z s)
 
 (** val bad_input : sexp **)
 
@@ -894,27 +1111,1424 @@ let audit e doc =
 (** val math_rows : mrow list **)
 
 let math_rows =
-  []
+  { m_py = ('s'::('i'::('n'::[]))); m_cpp =
+    ('s'::('t'::('d'::(':'::(':'::('s'::('i'::('n'::[])))))))); m_inc =
+    (('c'::('m'::('a'::('t'::('h'::[]))))) :: []); m_ret =
+    ('d'::('o'::('u'::('b'::('l'::('e'::[])))))) } :: ({ m_py =
+    ('c'::('o'::('s'::[]))); m_cpp =
+    ('s'::('t'::('d'::(':'::(':'::('c'::('o'::('s'::[])))))))); m_inc =
+    (('c'::('m'::('a'::('t'::('h'::[]))))) :: []); m_ret =
+    ('d'::('o'::('u'::('b'::('l'::('e'::[])))))) } :: ({ m_py =
+    ('t'::('a'::('n'::[]))); m_cpp =
+    ('s'::('t'::('d'::(':'::(':'::('t'::('a'::('n'::[])))))))); m_inc =
+    (('c'::('m'::('a'::('t'::('h'::[]))))) :: []); m_ret =
+    ('d'::('o'::('u'::('b'::('l'::('e'::[])))))) } :: ({ m_py =
+    ('a'::('c'::('o'::('s'::[])))); m_cpp =
+    ('s'::('t'::('d'::(':'::(':'::('a'::('c'::('o'::('s'::[])))))))));
+    m_inc = (('c'::('m'::('a'::('t'::('h'::[]))))) :: []); m_ret =
+    ('d'::('o'::('u'::('b'::('l'::('e'::[])))))) } :: ({ m_py =
+    ('a'::('s'::('i'::('n'::[])))); m_cpp =
+    ('s'::('t'::('d'::(':'::(':'::('a'::('s'::('i'::('n'::[])))))))));
+    m_inc = (('c'::('m'::('a'::('t'::('h'::[]))))) :: []); m_ret =
+    ('d'::('o'::('u'::('b'::('l'::('e'::[])))))) } :: ({ m_py =
+    ('a'::('t'::('a'::('n'::[])))); m_cpp =
+    ('s'::('t'::('d'::(':'::(':'::('a'::('t'::('a'::('n'::[])))))))));
+    m_inc = (('c'::('m'::('a'::('t'::('h'::[]))))) :: []); m_ret =
+    ('d'::('o'::('u'::('b'::('l'::('e'::[])))))) } :: ({ m_py =
+    ('a'::('t'::('a'::('n'::('2'::[]))))); m_cpp =
+    ('s'::('t'::('d'::(':'::(':'::('a'::('t'::('a'::('n'::('2'::[]))))))))));
+    m_inc = (('c'::('m'::('a'::('t'::('h'::[]))))) :: []); m_ret =
+    ('d'::('o'::('u'::('b'::('l'::('e'::[])))))) } :: ({ m_py =
+    ('s'::('i'::('n'::('h'::[])))); m_cpp =
+    ('s'::('t'::('d'::(':'::(':'::('s'::('i'::('n'::('h'::[])))))))));
+    m_inc = (('c'::('m'::('a'::('t'::('h'::[]))))) :: []); m_ret =
+    ('d'::('o'::('u'::('b'::('l'::('e'::[])))))) } :: ({ m_py =
+    ('c'::('o'::('s'::('h'::[])))); m_cpp =
+    ('s'::('t'::('d'::(':'::(':'::('c'::('o'::('s'::('h'::[])))))))));
+    m_inc = (('c'::('m'::('a'::('t'::('h'::[]))))) :: []); m_ret =
+    ('d'::('o'::('u'::('b'::('l'::('e'::[])))))) } :: ({ m_py =
+    ('t'::('a'::('n'::('h'::[])))); m_cpp =
+    ('s'::('t'::('d'::(':'::(':'::('t'::('a'::('n'::('h'::[])))))))));
+    m_inc = (('c'::('m'::('a'::('t'::('h'::[]))))) :: []); m_ret =
+    ('d'::('o'::('u'::('b'::('l'::('e'::[])))))) } :: ({ m_py =
+    ('a'::('s'::('i'::('n'::('h'::[]))))); m_cpp =
+    ('s'::('t'::('d'::(':'::(':'::('a'::('s'::('i'::('n'::('h'::[]))))))))));
+    m_inc = (('c'::('m'::('a'::('t'::('h'::[]))))) :: []); m_ret =
+    ('d'::('o'::('u'::('b'::('l'::('e'::[])))))) } :: ({ m_py =
+    ('a'::('c'::('o'::('s'::('h'::[]))))); m_cpp =
+    ('s'::('t'::('d'::(':'::(':'::('a'::('c'::('o'::('s'::('h'::[]))))))))));
+    m_inc = (('c'::('m'::('a'::('t'::('h'::[]))))) :: []); m_ret =
+    ('d'::('o'::('u'::('b'::('l'::('e'::[])))))) } :: ({ m_py =
+    ('a'::('t'::('a'::('n'::('h'::[]))))); m_cpp =
+    ('s'::('t'::('d'::(':'::(':'::('a'::('t'::('a'::('n'::('h'::[]))))))))));
+    m_inc = (('c'::('m'::('a'::('t'::('h'::[]))))) :: []); m_ret =
+    ('d'::('o'::('u'::('b'::('l'::('e'::[])))))) } :: ({ m_py =
+    ('e'::('x'::('p'::[]))); m_cpp =
+    ('s'::('t'::('d'::(':'::(':'::('e'::('x'::('p'::[])))))))); m_inc =
+    (('c'::('m'::('a'::('t'::('h'::[]))))) :: []); m_ret =
+    ('d'::('o'::('u'::('b'::('l'::('e'::[])))))) } :: ({ m_py =
+    ('l'::('d'::('e'::('x'::('p'::[]))))); m_cpp =
+    ('s'::('t'::('d'::(':'::(':'::('l'::('d'::('e'::('x'::('p'::[]))))))))));
+    m_inc = (('c'::('m'::('a'::('t'::('h'::[]))))) :: []); m_ret =
+    ('d'::('o'::('u'::('b'::('l'::('e'::[])))))) } :: ({ m_py =
+    ('l'::('o'::('g'::[]))); m_cpp =
+    ('s'::('t'::('d'::(':'::(':'::('l'::('o'::('g'::[])))))))); m_inc =
+    (('c'::('m'::('a'::('t'::('h'::[]))))) :: []); m_ret =
+    ('d'::('o'::('u'::('b'::('l'::('e'::[])))))) } :: ({ m_py =
+    ('l'::('n'::[])); m_cpp =
+    ('s'::('t'::('d'::(':'::(':'::('l'::('o'::('g'::[])))))))); m_inc =
+    (('c'::('m'::('a'::('t'::('h'::[]))))) :: []); m_ret =
+    ('d'::('o'::('u'::('b'::('l'::('e'::[])))))) } :: ({ m_py =
+    ('l'::('o'::('g'::('1'::('0'::[]))))); m_cpp =
+    ('s'::('t'::('d'::(':'::(':'::('l'::('o'::('g'::('1'::('0'::[]))))))))));
+    m_inc = (('c'::('m'::('a'::('t'::('h'::[]))))) :: []); m_ret =
+    ('d'::('o'::('u'::('b'::('l'::('e'::[])))))) } :: ({ m_py =
+    ('e'::('x'::('p'::('2'::[])))); m_cpp =
+    ('s'::('t'::('d'::(':'::(':'::('e'::('x'::('p'::('2'::[])))))))));
+    m_inc = (('c'::('m'::('a'::('t'::('h'::[]))))) :: []); m_ret =
+    ('d'::('o'::('u'::('b'::('l'::('e'::[])))))) } :: ({ m_py =
+    ('e'::('x'::('p'::('m'::('1'::[]))))); m_cpp =
+    ('s'::('t'::('d'::(':'::(':'::('e'::('x'::('p'::('m'::('1'::[]))))))))));
+    m_inc = (('c'::('m'::('a'::('t'::('h'::[]))))) :: []); m_ret =
+    ('d'::('o'::('u'::('b'::('l'::('e'::[])))))) } :: ({ m_py =
+    ('i'::('l'::('o'::('g'::('b'::[]))))); m_cpp =
+    ('s'::('t'::('d'::(':'::(':'::('i'::('l'::('o'::('g'::('b'::[]))))))))));
+    m_inc = (('c'::('m'::('a'::('t'::('h'::[]))))) :: []); m_ret =
+    ('d'::('o'::('u'::('b'::('l'::('e'::[])))))) } :: ({ m_py =
+    ('l'::('o'::('g'::('1'::('p'::[]))))); m_cpp =
+    ('s'::('t'::('d'::(':'::(':'::('l'::('o'::('g'::('1'::('p'::[]))))))))));
+    m_inc = (('c'::('m'::('a'::('t'::('h'::[]))))) :: []); m_ret =
+    ('d'::('o'::('u'::('b'::('l'::('e'::[])))))) } :: ({ m_py =
+    ('l'::('o'::('g'::('2'::[])))); m_cpp =
+    ('s'::('t'::('d'::(':'::(':'::('l'::('o'::('g'::('2'::[])))))))));
+    m_inc = (('c'::('m'::('a'::('t'::('h'::[]))))) :: []); m_ret =
+    ('d'::('o'::('u'::('b'::('l'::('e'::[])))))) } :: ({ m_py =
+    ('s'::('c'::('a'::('l'::('b'::('n'::[])))))); m_cpp =
+    ('s'::('t'::('d'::(':'::(':'::('s'::('c'::('a'::('l'::('b'::('n'::[])))))))))));
+    m_inc = (('c'::('m'::('a'::('t'::('h'::[]))))) :: []); m_ret =
+    ('d'::('o'::('u'::('b'::('l'::('e'::[])))))) } :: ({ m_py =
+    ('s'::('c'::('a'::('l'::('b'::('l'::('n'::[]))))))); m_cpp =
+    ('s'::('t'::('d'::(':'::(':'::('s'::('c'::('a'::('l'::('b'::('l'::('n'::[]))))))))))));
+    m_inc = (('c'::('m'::('a'::('t'::('h'::[]))))) :: []); m_ret =
+    ('d'::('o'::('u'::('b'::('l'::('e'::[])))))) } :: ({ m_py =
+    ('p'::('o'::('w'::[]))); m_cpp =
+    ('s'::('t'::('d'::(':'::(':'::('p'::('o'::('w'::[])))))))); m_inc =
+    (('c'::('m'::('a'::('t'::('h'::[]))))) :: []); m_ret =
+    ('d'::('o'::('u'::('b'::('l'::('e'::[])))))) } :: ({ m_py =
+    ('s'::('q'::('r'::('t'::[])))); m_cpp =
+    ('s'::('t'::('d'::(':'::(':'::('s'::('q'::('r'::('t'::[])))))))));
+    m_inc = (('c'::('m'::('a'::('t'::('h'::[]))))) :: []); m_ret =
+    ('d'::('o'::('u'::('b'::('l'::('e'::[])))))) } :: ({ m_py =
+    ('c'::('b'::('r'::('t'::[])))); m_cpp =
+    ('s'::('t'::('d'::(':'::(':'::('c'::('b'::('r'::('t'::[])))))))));
+    m_inc = (('c'::('m'::('a'::('t'::('h'::[]))))) :: []); m_ret =
+    ('d'::('o'::('u'::('b'::('l'::('e'::[])))))) } :: ({ m_py =
+    ('h'::('y'::('p'::('o'::('t'::[]))))); m_cpp =
+    ('s'::('t'::('d'::(':'::(':'::('h'::('y'::('p'::('o'::('t'::[]))))))))));
+    m_inc = (('c'::('m'::('a'::('t'::('h'::[]))))) :: []); m_ret =
+    ('d'::('o'::('u'::('b'::('l'::('e'::[])))))) } :: ({ m_py =
+    ('e'::('r'::('f'::[]))); m_cpp =
+    ('s'::('t'::('d'::(':'::(':'::('e'::('r'::('f'::[])))))))); m_inc =
+    (('c'::('m'::('a'::('t'::('h'::[]))))) :: []); m_ret =
+    ('d'::('o'::('u'::('b'::('l'::('e'::[])))))) } :: ({ m_py =
+    ('e'::('r'::('f'::('c'::[])))); m_cpp =
+    ('s'::('t'::('d'::(':'::(':'::('e'::('r'::('f'::('c'::[])))))))));
+    m_inc = (('c'::('m'::('a'::('t'::('h'::[]))))) :: []); m_ret =
+    ('d'::('o'::('u'::('b'::('l'::('e'::[])))))) } :: ({ m_py =
+    ('t'::('g'::('a'::('m'::('m'::('a'::[])))))); m_cpp =
+    ('s'::('t'::('d'::(':'::(':'::('t'::('g'::('a'::('m'::('m'::('a'::[])))))))))));
+    m_inc = (('c'::('m'::('a'::('t'::('h'::[]))))) :: []); m_ret =
+    ('d'::('o'::('u'::('b'::('l'::('e'::[])))))) } :: ({ m_py =
+    ('l'::('g'::('a'::('m'::('m'::('a'::[])))))); m_cpp =
+    ('s'::('t'::('d'::(':'::(':'::('l'::('g'::('a'::('m'::('m'::('a'::[])))))))))));
+    m_inc = (('c'::('m'::('a'::('t'::('h'::[]))))) :: []); m_ret =
+    ('d'::('o'::('u'::('b'::('l'::('e'::[])))))) } :: ({ m_py =
+    ('c'::('e'::('i'::('l'::[])))); m_cpp =
+    ('s'::('t'::('d'::(':'::(':'::('c'::('e'::('i'::('l'::[])))))))));
+    m_inc = (('c'::('m'::('a'::('t'::('h'::[]))))) :: []); m_ret =
+    ('d'::('o'::('u'::('b'::('l'::('e'::[])))))) } :: ({ m_py =
+    ('f'::('l'::('o'::('o'::('r'::[]))))); m_cpp =
+    ('s'::('t'::('d'::(':'::(':'::('f'::('l'::('o'::('o'::('r'::[]))))))))));
+    m_inc = (('c'::('m'::('a'::('t'::('h'::[]))))) :: []); m_ret =
+    ('d'::('o'::('u'::('b'::('l'::('e'::[])))))) } :: ({ m_py =
+    ('f'::('m'::('o'::('d'::[])))); m_cpp =
+    ('s'::('t'::('d'::(':'::(':'::('f'::('m'::('o'::('d'::[])))))))));
+    m_inc = (('c'::('m'::('a'::('t'::('h'::[]))))) :: []); m_ret =
+    ('d'::('o'::('u'::('b'::('l'::('e'::[])))))) } :: ({ m_py =
+    ('t'::('r'::('u'::('n'::('c'::[]))))); m_cpp =
+    ('s'::('t'::('d'::(':'::(':'::('t'::('r'::('u'::('n'::('c'::[]))))))))));
+    m_inc = (('c'::('m'::('a'::('t'::('h'::[]))))) :: []); m_ret =
+    ('d'::('o'::('u'::('b'::('l'::('e'::[])))))) } :: ({ m_py =
+    ('r'::('o'::('u'::('n'::('d'::[]))))); m_cpp =
+    ('s'::('t'::('d'::(':'::(':'::('r'::('o'::('u'::('n'::('d'::[]))))))))));
+    m_inc = (('c'::('m'::('a'::('t'::('h'::[]))))) :: []); m_ret =
+    ('d'::('o'::('u'::('b'::('l'::('e'::[])))))) } :: ({ m_py =
+    ('r'::('i'::('n'::('t'::[])))); m_cpp =
+    ('s'::('t'::('d'::(':'::(':'::('r'::('i'::('n'::('t'::[])))))))));
+    m_inc = (('c'::('m'::('a'::('t'::('h'::[]))))) :: []); m_ret =
+    ('d'::('o'::('u'::('b'::('l'::('e'::[])))))) } :: ({ m_py =
+    ('n'::('e'::('a'::('r'::('b'::('y'::('i'::('n'::('t'::[])))))))));
+    m_cpp =
+    ('s'::('t'::('d'::(':'::(':'::('n'::('e'::('a'::('r'::('b'::('y'::('i'::('n'::('t'::[]))))))))))))));
+    m_inc = (('c'::('m'::('a'::('t'::('h'::[]))))) :: []); m_ret =
+    ('d'::('o'::('u'::('b'::('l'::('e'::[])))))) } :: ({ m_py =
+    ('r'::('e'::('m'::('a'::('i'::('n'::('d'::('e'::('r'::[])))))))));
+    m_cpp =
+    ('s'::('t'::('d'::(':'::(':'::('r'::('e'::('m'::('a'::('i'::('n'::('d'::('e'::('r'::[]))))))))))))));
+    m_inc = (('c'::('m'::('a'::('t'::('h'::[]))))) :: []); m_ret =
+    ('d'::('o'::('u'::('b'::('l'::('e'::[])))))) } :: ({ m_py =
+    ('r'::('e'::('m'::('q'::('u'::('o'::[])))))); m_cpp =
+    ('s'::('t'::('d'::(':'::(':'::('r'::('e'::('m'::('q'::('u'::('o'::[])))))))))));
+    m_inc = (('c'::('m'::('a'::('t'::('h'::[]))))) :: []); m_ret =
+    ('d'::('o'::('u'::('b'::('l'::('e'::[])))))) } :: ({ m_py =
+    ('c'::('o'::('p'::('y'::('s'::('i'::('g'::('n'::[])))))))); m_cpp =
+    ('s'::('t'::('d'::(':'::(':'::('c'::('o'::('p'::('y'::('s'::('i'::('g'::('n'::[])))))))))))));
+    m_inc = (('c'::('m'::('a'::('t'::('h'::[]))))) :: []); m_ret =
+    ('d'::('o'::('u'::('b'::('l'::('e'::[])))))) } :: ({ m_py =
+    ('n'::('a'::('n'::[]))); m_cpp =
+    ('s'::('t'::('d'::(':'::(':'::('n'::('a'::('n'::[])))))))); m_inc =
+    (('c'::('m'::('a'::('t'::('h'::[]))))) :: []); m_ret =
+    ('d'::('o'::('u'::('b'::('l'::('e'::[])))))) } :: ({ m_py =
+    ('n'::('e'::('x'::('t'::('a'::('f'::('t'::('e'::('r'::[])))))))));
+    m_cpp =
+    ('s'::('t'::('d'::(':'::(':'::('n'::('e'::('x'::('t'::('a'::('f'::('t'::('e'::('r'::[]))))))))))))));
+    m_inc = (('c'::('m'::('a'::('t'::('h'::[]))))) :: []); m_ret =
+    ('d'::('o'::('u'::('b'::('l'::('e'::[])))))) } :: ({ m_py =
+    ('n'::('e'::('x'::('t'::('t'::('o'::('w'::('a'::('r'::('d'::[]))))))))));
+    m_cpp =
+    ('s'::('t'::('d'::(':'::(':'::('n'::('e'::('x'::('t'::('t'::('o'::('w'::('a'::('r'::('d'::[])))))))))))))));
+    m_inc = (('c'::('m'::('a'::('t'::('h'::[]))))) :: []); m_ret =
+    ('d'::('o'::('u'::('b'::('l'::('e'::[])))))) } :: ({ m_py =
+    ('f'::('d'::('i'::('m'::[])))); m_cpp =
+    ('s'::('t'::('d'::(':'::(':'::('f'::('d'::('i'::('m'::[])))))))));
+    m_inc = (('c'::('m'::('a'::('t'::('h'::[]))))) :: []); m_ret =
+    ('d'::('o'::('u'::('b'::('l'::('e'::[])))))) } :: ({ m_py =
+    ('f'::('m'::('a'::('x'::[])))); m_cpp =
+    ('s'::('t'::('d'::(':'::(':'::('f'::('m'::('a'::('x'::[])))))))));
+    m_inc = (('c'::('m'::('a'::('t'::('h'::[]))))) :: []); m_ret =
+    ('d'::('o'::('u'::('b'::('l'::('e'::[])))))) } :: ({ m_py =
+    ('f'::('m'::('i'::('n'::[])))); m_cpp =
+    ('s'::('t'::('d'::(':'::(':'::('f'::('m'::('i'::('n'::[])))))))));
+    m_inc = (('c'::('m'::('a'::('t'::('h'::[]))))) :: []); m_ret =
+    ('d'::('o'::('u'::('b'::('l'::('e'::[])))))) } :: ({ m_py =
+    ('f'::('a'::('b'::('s'::[])))); m_cpp =
+    ('s'::('t'::('d'::(':'::(':'::('f'::('a'::('b'::('s'::[])))))))));
+    m_inc = (('c'::('m'::('a'::('t'::('h'::[]))))) :: []); m_ret =
+    ('d'::('o'::('u'::('b'::('l'::('e'::[])))))) } :: ({ m_py =
+    ('a'::('b'::('s'::[]))); m_cpp =
+    ('s'::('t'::('d'::(':'::(':'::('f'::('a'::('b'::('s'::[])))))))));
+    m_inc = (('c'::('m'::('a'::('t'::('h'::[]))))) :: []); m_ret =
+    ('d'::('o'::('u'::('b'::('l'::('e'::[])))))) } :: ({ m_py =
+    ('f'::('m'::('a'::[]))); m_cpp =
+    ('s'::('t'::('d'::(':'::(':'::('f'::('m'::('a'::[])))))))); m_inc =
+    (('c'::('m'::('a'::('t'::('h'::[]))))) :: []); m_ret =
+    ('d'::('o'::('u'::('b'::('l'::('e'::[])))))) } :: ({ m_py =
+    ('b'::('u'::('i'::('l'::('t'::('i'::('n'::('s'::('.'::('a'::('b'::('s'::[]))))))))))));
+    m_cpp = ('s'::('t'::('d'::(':'::(':'::('a'::('b'::('s'::[]))))))));
+    m_inc = (('c'::('m'::('a'::('t'::('h'::[]))))) :: []); m_ret =
+    ('d'::('o'::('u'::('b'::('l'::('e'::[])))))) } :: ({ m_py =
+    ('b'::('u'::('i'::('l'::('t'::('i'::('n'::('s'::('.'::('p'::('o'::('w'::[]))))))))))));
+    m_cpp = ('s'::('t'::('d'::(':'::(':'::('p'::('o'::('w'::[]))))))));
+    m_inc = (('c'::('m'::('a'::('t'::('h'::[]))))) :: []); m_ret =
+    ('d'::('o'::('u'::('b'::('l'::('e'::[])))))) } :: ({ m_py =
+    ('b'::('u'::('i'::('l'::('t'::('i'::('n'::('s'::('.'::('r'::('o'::('u'::('n'::('d'::[]))))))))))))));
+    m_cpp =
+    ('s'::('t'::('d'::(':'::(':'::('r'::('o'::('u'::('n'::('d'::[]))))))))));
+    m_inc = (('c'::('m'::('a'::('t'::('h'::[]))))) :: []); m_ret =
+    ('d'::('o'::('u'::('b'::('l'::('e'::[])))))) } :: []))))))))))))))))))))))))))))))))))))))))))))))))))))))
 
 (** val module_names : char list list **)
 
 let module_names =
-  []
+  ('a'::('s'::('t'::[]))) :: (('n'::('a'::('m'::('e'::('d'::('t'::('u'::('p'::('l'::('e'::[])))))))))) :: (('F'::('u'::('n'::('c'::('t'::('i'::('o'::('n'::('A'::('S'::('T'::[]))))))))))) :: (('f'::('i'::('n'::('d'::('_'::('k'::('n'::('o'::('w'::('n'::('_'::('f'::('u'::('n'::('c'::('t'::('i'::('o'::('n'::('s'::[])))))))))))))))))))) :: (('a'::('d'::('d'::('_'::('f'::('u'::('n'::('c'::('t'::('i'::('o'::('n'::('_'::('m'::('a'::('p'::('p'::('i'::('n'::('g'::[])))))))))))))))))))) :: (('f'::('u'::('n'::('c'::('t'::('i'::('o'::('n'::('s'::('_'::('t'::('o'::('_'::('r'::('e'::('p'::('l'::('a'::('c'::('e'::[])))))))))))))))))))) :: (('c'::('p'::('p'::('_'::('f'::('u'::('n'::('c'::('t'::('i'::('o'::('n'::[])))))))))))) :: []))))))
 
 (** val builtin_names : (char list * char list) list **)
 
 let builtin_names =
-  []
+  (('A'::('r'::('i'::('t'::('h'::('m'::('e'::('t'::('i'::('c'::('E'::('r'::('r'::('o'::('r'::[]))))))))))))))),
+    ('b'::('u'::('i'::('l'::('t'::('i'::('n'::('s'::[]))))))))) :: ((('A'::('s'::('s'::('e'::('r'::('t'::('i'::('o'::('n'::('E'::('r'::('r'::('o'::('r'::[])))))))))))))),
+    ('b'::('u'::('i'::('l'::('t'::('i'::('n'::('s'::[]))))))))) :: ((('A'::('t'::('t'::('r'::('i'::('b'::('u'::('t'::('e'::('E'::('r'::('r'::('o'::('r'::[])))))))))))))),
+    ('b'::('u'::('i'::('l'::('t'::('i'::('n'::('s'::[]))))))))) :: ((('B'::('a'::('s'::('e'::('E'::('x'::('c'::('e'::('p'::('t'::('i'::('o'::('n'::[]))))))))))))),
+    ('b'::('u'::('i'::('l'::('t'::('i'::('n'::('s'::[]))))))))) :: ((('B'::('a'::('s'::('e'::('E'::('x'::('c'::('e'::('p'::('t'::('i'::('o'::('n'::('G'::('r'::('o'::('u'::('p'::[])))))))))))))))))),
+    ('b'::('u'::('i'::('l'::('t'::('i'::('n'::('s'::[]))))))))) :: ((('B'::('l'::('o'::('c'::('k'::('i'::('n'::('g'::('I'::('O'::('E'::('r'::('r'::('o'::('r'::[]))))))))))))))),
+    ('b'::('u'::('i'::('l'::('t'::('i'::('n'::('s'::[]))))))))) :: ((('B'::('r'::('o'::('k'::('e'::('n'::('P'::('i'::('p'::('e'::('E'::('r'::('r'::('o'::('r'::[]))))))))))))))),
+    ('b'::('u'::('i'::('l'::('t'::('i'::('n'::('s'::[]))))))))) :: ((('B'::('u'::('f'::('f'::('e'::('r'::('E'::('r'::('r'::('o'::('r'::[]))))))))))),
+    ('b'::('u'::('i'::('l'::('t'::('i'::('n'::('s'::[]))))))))) :: ((('B'::('y'::('t'::('e'::('s'::('W'::('a'::('r'::('n'::('i'::('n'::('g'::[])))))))))))),
+    ('b'::('u'::('i'::('l'::('t'::('i'::('n'::('s'::[]))))))))) :: ((('C'::('h'::('i'::('l'::('d'::('P'::('r'::('o'::('c'::('e'::('s'::('s'::('E'::('r'::('r'::('o'::('r'::[]))))))))))))))))),
+    ('b'::('u'::('i'::('l'::('t'::('i'::('n'::('s'::[]))))))))) :: ((('C'::('o'::('n'::('n'::('e'::('c'::('t'::('i'::('o'::('n'::('A'::('b'::('o'::('r'::('t'::('e'::('d'::('E'::('r'::('r'::('o'::('r'::[])))))))))))))))))))))),
+    ('b'::('u'::('i'::('l'::('t'::('i'::('n'::('s'::[]))))))))) :: ((('C'::('o'::('n'::('n'::('e'::('c'::('t'::('i'::('o'::('n'::('E'::('r'::('r'::('o'::('r'::[]))))))))))))))),
+    ('b'::('u'::('i'::('l'::('t'::('i'::('n'::('s'::[]))))))))) :: ((('C'::('o'::('n'::('n'::('e'::('c'::('t'::('i'::('o'::('n'::('R'::('e'::('f'::('u'::('s'::('e'::('d'::('E'::('r'::('r'::('o'::('r'::[])))))))))))))))))))))),
+    ('b'::('u'::('i'::('l'::('t'::('i'::('n'::('s'::[]))))))))) :: ((('C'::('o'::('n'::('n'::('e'::('c'::('t'::('i'::('o'::('n'::('R'::('e'::('s'::('e'::('t'::('E'::('r'::('r'::('o'::('r'::[])))))))))))))))))))),
+    ('b'::('u'::('i'::('l'::('t'::('i'::('n'::('s'::[]))))))))) :: ((('D'::('e'::('p'::('r'::('e'::('c'::('a'::('t'::('i'::('o'::('n'::('W'::('a'::('r'::('n'::('i'::('n'::('g'::[])))))))))))))))))),
+    ('b'::('u'::('i'::('l'::('t'::('i'::('n'::('s'::[]))))))))) :: ((('E'::('O'::('F'::('E'::('r'::('r'::('o'::('r'::[])))))))),
+    ('b'::('u'::('i'::('l'::('t'::('i'::('n'::('s'::[]))))))))) :: ((('E'::('l'::('l'::('i'::('p'::('s'::('i'::('s'::[])))))))),
+    ('-'::[])) :: ((('E'::('n'::('c'::('o'::('d'::('i'::('n'::('g'::('W'::('a'::('r'::('n'::('i'::('n'::('g'::[]))))))))))))))),
+    ('b'::('u'::('i'::('l'::('t'::('i'::('n'::('s'::[]))))))))) :: ((('E'::('n'::('v'::('i'::('r'::('o'::('n'::('m'::('e'::('n'::('t'::('E'::('r'::('r'::('o'::('r'::[])))))))))))))))),
+    ('b'::('u'::('i'::('l'::('t'::('i'::('n'::('s'::[]))))))))) :: ((('E'::('x'::('c'::('e'::('p'::('t'::('i'::('o'::('n'::[]))))))))),
+    ('b'::('u'::('i'::('l'::('t'::('i'::('n'::('s'::[]))))))))) :: ((('E'::('x'::('c'::('e'::('p'::('t'::('i'::('o'::('n'::('G'::('r'::('o'::('u'::('p'::[])))))))))))))),
+    ('b'::('u'::('i'::('l'::('t'::('i'::('n'::('s'::[]))))))))) :: ((('F'::('a'::('l'::('s'::('e'::[]))))),
+    ('-'::[])) :: ((('F'::('i'::('l'::('e'::('E'::('x'::('i'::('s'::('t'::('s'::('E'::('r'::('r'::('o'::('r'::[]))))))))))))))),
+    ('b'::('u'::('i'::('l'::('t'::('i'::('n'::('s'::[]))))))))) :: ((('F'::('i'::('l'::('e'::('N'::('o'::('t'::('F'::('o'::('u'::('n'::('d'::('E'::('r'::('r'::('o'::('r'::[]))))))))))))))))),
+    ('b'::('u'::('i'::('l'::('t'::('i'::('n'::('s'::[]))))))))) :: ((('F'::('l'::('o'::('a'::('t'::('i'::('n'::('g'::('P'::('o'::('i'::('n'::('t'::('E'::('r'::('r'::('o'::('r'::[])))))))))))))))))),
+    ('b'::('u'::('i'::('l'::('t'::('i'::('n'::('s'::[]))))))))) :: ((('F'::('u'::('t'::('u'::('r'::('e'::('W'::('a'::('r'::('n'::('i'::('n'::('g'::[]))))))))))))),
+    ('b'::('u'::('i'::('l'::('t'::('i'::('n'::('s'::[]))))))))) :: ((('G'::('e'::('n'::('e'::('r'::('a'::('t'::('o'::('r'::('E'::('x'::('i'::('t'::[]))))))))))))),
+    ('b'::('u'::('i'::('l'::('t'::('i'::('n'::('s'::[]))))))))) :: ((('I'::('O'::('E'::('r'::('r'::('o'::('r'::[]))))))),
+    ('b'::('u'::('i'::('l'::('t'::('i'::('n'::('s'::[]))))))))) :: ((('I'::('m'::('p'::('o'::('r'::('t'::('E'::('r'::('r'::('o'::('r'::[]))))))))))),
+    ('b'::('u'::('i'::('l'::('t'::('i'::('n'::('s'::[]))))))))) :: ((('I'::('m'::('p'::('o'::('r'::('t'::('W'::('a'::('r'::('n'::('i'::('n'::('g'::[]))))))))))))),
+    ('b'::('u'::('i'::('l'::('t'::('i'::('n'::('s'::[]))))))))) :: ((('I'::('n'::('d'::('e'::('n'::('t'::('a'::('t'::('i'::('o'::('n'::('E'::('r'::('r'::('o'::('r'::[])))))))))))))))),
+    ('b'::('u'::('i'::('l'::('t'::('i'::('n'::('s'::[]))))))))) :: ((('I'::('n'::('d'::('e'::('x'::('E'::('r'::('r'::('o'::('r'::[])))))))))),
+    ('b'::('u'::('i'::('l'::('t'::('i'::('n'::('s'::[]))))))))) :: ((('I'::('n'::('t'::('e'::('r'::('r'::('u'::('p'::('t'::('e'::('d'::('E'::('r'::('r'::('o'::('r'::[])))))))))))))))),
+    ('b'::('u'::('i'::('l'::('t'::('i'::('n'::('s'::[]))))))))) :: ((('I'::('s'::('A'::('D'::('i'::('r'::('e'::('c'::('t'::('o'::('r'::('y'::('E'::('r'::('r'::('o'::('r'::[]))))))))))))))))),
+    ('b'::('u'::('i'::('l'::('t'::('i'::('n'::('s'::[]))))))))) :: ((('K'::('e'::('y'::('E'::('r'::('r'::('o'::('r'::[])))))))),
+    ('b'::('u'::('i'::('l'::('t'::('i'::('n'::('s'::[]))))))))) :: ((('K'::('e'::('y'::('b'::('o'::('a'::('r'::('d'::('I'::('n'::('t'::('e'::('r'::('r'::('u'::('p'::('t'::[]))))))))))))))))),
+    ('b'::('u'::('i'::('l'::('t'::('i'::('n'::('s'::[]))))))))) :: ((('L'::('o'::('o'::('k'::('u'::('p'::('E'::('r'::('r'::('o'::('r'::[]))))))))))),
+    ('b'::('u'::('i'::('l'::('t'::('i'::('n'::('s'::[]))))))))) :: ((('M'::('e'::('m'::('o'::('r'::('y'::('E'::('r'::('r'::('o'::('r'::[]))))))))))),
+    ('b'::('u'::('i'::('l'::('t'::('i'::('n'::('s'::[]))))))))) :: ((('M'::('o'::('d'::('u'::('l'::('e'::('N'::('o'::('t'::('F'::('o'::('u'::('n'::('d'::('E'::('r'::('r'::('o'::('r'::[]))))))))))))))))))),
+    ('b'::('u'::('i'::('l'::('t'::('i'::('n'::('s'::[]))))))))) :: ((('N'::('a'::('m'::('e'::('E'::('r'::('r'::('o'::('r'::[]))))))))),
+    ('b'::('u'::('i'::('l'::('t'::('i'::('n'::('s'::[]))))))))) :: ((('N'::('o'::('n'::('e'::[])))),
+    ('-'::[])) :: ((('N'::('o'::('t'::('A'::('D'::('i'::('r'::('e'::('c'::('t'::('o'::('r'::('y'::('E'::('r'::('r'::('o'::('r'::[])))))))))))))))))),
+    ('b'::('u'::('i'::('l'::('t'::('i'::('n'::('s'::[]))))))))) :: ((('N'::('o'::('t'::('I'::('m'::('p'::('l'::('e'::('m'::('e'::('n'::('t'::('e'::('d'::[])))))))))))))),
+    ('-'::[])) :: ((('N'::('o'::('t'::('I'::('m'::('p'::('l'::('e'::('m'::('e'::('n'::('t'::('e'::('d'::('E'::('r'::('r'::('o'::('r'::[]))))))))))))))))))),
+    ('b'::('u'::('i'::('l'::('t'::('i'::('n'::('s'::[]))))))))) :: ((('O'::('S'::('E'::('r'::('r'::('o'::('r'::[]))))))),
+    ('b'::('u'::('i'::('l'::('t'::('i'::('n'::('s'::[]))))))))) :: ((('O'::('v'::('e'::('r'::('f'::('l'::('o'::('w'::('E'::('r'::('r'::('o'::('r'::[]))))))))))))),
+    ('b'::('u'::('i'::('l'::('t'::('i'::('n'::('s'::[]))))))))) :: ((('P'::('e'::('n'::('d'::('i'::('n'::('g'::('D'::('e'::('p'::('r'::('e'::('c'::('a'::('t'::('i'::('o'::('n'::('W'::('a'::('r'::('n'::('i'::('n'::('g'::[]))))))))))))))))))))))))),
+    ('b'::('u'::('i'::('l'::('t'::('i'::('n'::('s'::[]))))))))) :: ((('P'::('e'::('r'::('m'::('i'::('s'::('s'::('i'::('o'::('n'::('E'::('r'::('r'::('o'::('r'::[]))))))))))))))),
+    ('b'::('u'::('i'::('l'::('t'::('i'::('n'::('s'::[]))))))))) :: ((('P'::('r'::('o'::('c'::('e'::('s'::('s'::('L'::('o'::('o'::('k'::('u'::('p'::('E'::('r'::('r'::('o'::('r'::[])))))))))))))))))),
+    ('b'::('u'::('i'::('l'::('t'::('i'::('n'::('s'::[]))))))))) :: ((('R'::('e'::('c'::('u'::('r'::('s'::('i'::('o'::('n'::('E'::('r'::('r'::('o'::('r'::[])))))))))))))),
+    ('b'::('u'::('i'::('l'::('t'::('i'::('n'::('s'::[]))))))))) :: ((('R'::('e'::('f'::('e'::('r'::('e'::('n'::('c'::('e'::('E'::('r'::('r'::('o'::('r'::[])))))))))))))),
+    ('b'::('u'::('i'::('l'::('t'::('i'::('n'::('s'::[]))))))))) :: ((('R'::('e'::('s'::('o'::('u'::('r'::('c'::('e'::('W'::('a'::('r'::('n'::('i'::('n'::('g'::[]))))))))))))))),
+    ('b'::('u'::('i'::('l'::('t'::('i'::('n'::('s'::[]))))))))) :: ((('R'::('u'::('n'::('t'::('i'::('m'::('e'::('E'::('r'::('r'::('o'::('r'::[])))))))))))),
+    ('b'::('u'::('i'::('l'::('t'::('i'::('n'::('s'::[]))))))))) :: ((('R'::('u'::('n'::('t'::('i'::('m'::('e'::('W'::('a'::('r'::('n'::('i'::('n'::('g'::[])))))))))))))),
+    ('b'::('u'::('i'::('l'::('t'::('i'::('n'::('s'::[]))))))))) :: ((('S'::('t'::('o'::('p'::('A'::('s'::('y'::('n'::('c'::('I'::('t'::('e'::('r'::('a'::('t'::('i'::('o'::('n'::[])))))))))))))))))),
+    ('b'::('u'::('i'::('l'::('t'::('i'::('n'::('s'::[]))))))))) :: ((('S'::('t'::('o'::('p'::('I'::('t'::('e'::('r'::('a'::('t'::('i'::('o'::('n'::[]))))))))))))),
+    ('b'::('u'::('i'::('l'::('t'::('i'::('n'::('s'::[]))))))))) :: ((('S'::('y'::('n'::('t'::('a'::('x'::('E'::('r'::('r'::('o'::('r'::[]))))))))))),
+    ('b'::('u'::('i'::('l'::('t'::('i'::('n'::('s'::[]))))))))) :: ((('S'::('y'::('n'::('t'::('a'::('x'::('W'::('a'::('r'::('n'::('i'::('n'::('g'::[]))))))))))))),
+    ('b'::('u'::('i'::('l'::('t'::('i'::('n'::('s'::[]))))))))) :: ((('S'::('y'::('s'::('t'::('e'::('m'::('E'::('r'::('r'::('o'::('r'::[]))))))))))),
+    ('b'::('u'::('i'::('l'::('t'::('i'::('n'::('s'::[]))))))))) :: ((('S'::('y'::('s'::('t'::('e'::('m'::('E'::('x'::('i'::('t'::[])))))))))),
+    ('b'::('u'::('i'::('l'::('t'::('i'::('n'::('s'::[]))))))))) :: ((('T'::('a'::('b'::('E'::('r'::('r'::('o'::('r'::[])))))))),
+    ('b'::('u'::('i'::('l'::('t'::('i'::('n'::('s'::[]))))))))) :: ((('T'::('i'::('m'::('e'::('o'::('u'::('t'::('E'::('r'::('r'::('o'::('r'::[])))))))))))),
+    ('b'::('u'::('i'::('l'::('t'::('i'::('n'::('s'::[]))))))))) :: ((('T'::('r'::('u'::('e'::[])))),
+    ('-'::[])) :: ((('T'::('y'::('p'::('e'::('E'::('r'::('r'::('o'::('r'::[]))))))))),
+    ('b'::('u'::('i'::('l'::('t'::('i'::('n'::('s'::[]))))))))) :: ((('U'::('n'::('b'::('o'::('u'::('n'::('d'::('L'::('o'::('c'::('a'::('l'::('E'::('r'::('r'::('o'::('r'::[]))))))))))))))))),
+    ('b'::('u'::('i'::('l'::('t'::('i'::('n'::('s'::[]))))))))) :: ((('U'::('n'::('i'::('c'::('o'::('d'::('e'::('D'::('e'::('c'::('o'::('d'::('e'::('E'::('r'::('r'::('o'::('r'::[])))))))))))))))))),
+    ('b'::('u'::('i'::('l'::('t'::('i'::('n'::('s'::[]))))))))) :: ((('U'::('n'::('i'::('c'::('o'::('d'::('e'::('E'::('n'::('c'::('o'::('d'::('e'::('E'::('r'::('r'::('o'::('r'::[])))))))))))))))))),
+    ('b'::('u'::('i'::('l'::('t'::('i'::('n'::('s'::[]))))))))) :: ((('U'::('n'::('i'::('c'::('o'::('d'::('e'::('E'::('r'::('r'::('o'::('r'::[])))))))))))),
+    ('b'::('u'::('i'::('l'::('t'::('i'::('n'::('s'::[]))))))))) :: ((('U'::('n'::('i'::('c'::('o'::('d'::('e'::('T'::('r'::('a'::('n'::('s'::('l'::('a'::('t'::('e'::('E'::('r'::('r'::('o'::('r'::[]))))))))))))))))))))),
+    ('b'::('u'::('i'::('l'::('t'::('i'::('n'::('s'::[]))))))))) :: ((('U'::('n'::('i'::('c'::('o'::('d'::('e'::('W'::('a'::('r'::('n'::('i'::('n'::('g'::[])))))))))))))),
+    ('b'::('u'::('i'::('l'::('t'::('i'::('n'::('s'::[]))))))))) :: ((('U'::('s'::('e'::('r'::('W'::('a'::('r'::('n'::('i'::('n'::('g'::[]))))))))))),
+    ('b'::('u'::('i'::('l'::('t'::('i'::('n'::('s'::[]))))))))) :: ((('V'::('a'::('l'::('u'::('e'::('E'::('r'::('r'::('o'::('r'::[])))))))))),
+    ('b'::('u'::('i'::('l'::('t'::('i'::('n'::('s'::[]))))))))) :: ((('W'::('a'::('r'::('n'::('i'::('n'::('g'::[]))))))),
+    ('b'::('u'::('i'::('l'::('t'::('i'::('n'::('s'::[]))))))))) :: ((('Z'::('e'::('r'::('o'::('D'::('i'::('v'::('i'::('s'::('i'::('o'::('n'::('E'::('r'::('r'::('o'::('r'::[]))))))))))))))))),
+    ('b'::('u'::('i'::('l'::('t'::('i'::('n'::('s'::[]))))))))) :: ((('_'::('_'::('b'::('u'::('i'::('l'::('d'::('_'::('c'::('l'::('a'::('s'::('s'::('_'::('_'::[]))))))))))))))),
+    ('b'::('u'::('i'::('l'::('t'::('i'::('n'::('s'::[]))))))))) :: ((('_'::('_'::('d'::('e'::('b'::('u'::('g'::('_'::('_'::[]))))))))),
+    ('-'::[])) :: ((('_'::('_'::('d'::('o'::('c'::('_'::('_'::[]))))))),
+    ('-'::[])) :: ((('_'::('_'::('i'::('m'::('p'::('o'::('r'::('t'::('_'::('_'::[])))))))))),
+    ('b'::('u'::('i'::('l'::('t'::('i'::('n'::('s'::[]))))))))) :: ((('_'::('_'::('l'::('o'::('a'::('d'::('e'::('r'::('_'::('_'::[])))))))))),
+    ('_'::('f'::('r'::('o'::('z'::('e'::('n'::('_'::('i'::('m'::('p'::('o'::('r'::('t'::('l'::('i'::('b'::[])))))))))))))))))) :: ((('_'::('_'::('n'::('a'::('m'::('e'::('_'::('_'::[])))))))),
+    ('-'::[])) :: ((('_'::('_'::('p'::('a'::('c'::('k'::('a'::('g'::('e'::('_'::('_'::[]))))))))))),
+    ('-'::[])) :: ((('_'::('_'::('s'::('p'::('e'::('c'::('_'::('_'::[])))))))),
+    ('_'::('f'::('r'::('o'::('z'::('e'::('n'::('_'::('i'::('m'::('p'::('o'::('r'::('t'::('l'::('i'::('b'::[])))))))))))))))))) :: ((('a'::('b'::('s'::[]))),
+    ('b'::('u'::('i'::('l'::('t'::('i'::('n'::('s'::[]))))))))) :: ((('a'::('i'::('t'::('e'::('r'::[]))))),
+    ('b'::('u'::('i'::('l'::('t'::('i'::('n'::('s'::[]))))))))) :: ((('a'::('l'::('l'::[]))),
+    ('b'::('u'::('i'::('l'::('t'::('i'::('n'::('s'::[]))))))))) :: ((('a'::('n'::('e'::('x'::('t'::[]))))),
+    ('b'::('u'::('i'::('l'::('t'::('i'::('n'::('s'::[]))))))))) :: ((('a'::('n'::('y'::[]))),
+    ('b'::('u'::('i'::('l'::('t'::('i'::('n'::('s'::[]))))))))) :: ((('a'::('s'::('c'::('i'::('i'::[]))))),
+    ('b'::('u'::('i'::('l'::('t'::('i'::('n'::('s'::[]))))))))) :: ((('b'::('i'::('n'::[]))),
+    ('b'::('u'::('i'::('l'::('t'::('i'::('n'::('s'::[]))))))))) :: ((('b'::('o'::('o'::('l'::[])))),
+    ('b'::('u'::('i'::('l'::('t'::('i'::('n'::('s'::[]))))))))) :: ((('b'::('r'::('e'::('a'::('k'::('p'::('o'::('i'::('n'::('t'::[])))))))))),
+    ('b'::('u'::('i'::('l'::('t'::('i'::('n'::('s'::[]))))))))) :: ((('b'::('y'::('t'::('e'::('a'::('r'::('r'::('a'::('y'::[]))))))))),
+    ('b'::('u'::('i'::('l'::('t'::('i'::('n'::('s'::[]))))))))) :: ((('b'::('y'::('t'::('e'::('s'::[]))))),
+    ('b'::('u'::('i'::('l'::('t'::('i'::('n'::('s'::[]))))))))) :: ((('c'::('a'::('l'::('l'::('a'::('b'::('l'::('e'::[])))))))),
+    ('b'::('u'::('i'::('l'::('t'::('i'::('n'::('s'::[]))))))))) :: ((('c'::('h'::('r'::[]))),
+    ('b'::('u'::('i'::('l'::('t'::('i'::('n'::('s'::[]))))))))) :: ((('c'::('l'::('a'::('s'::('s'::('m'::('e'::('t'::('h'::('o'::('d'::[]))))))))))),
+    ('b'::('u'::('i'::('l'::('t'::('i'::('n'::('s'::[]))))))))) :: ((('c'::('o'::('m'::('p'::('i'::('l'::('e'::[]))))))),
+    ('b'::('u'::('i'::('l'::('t'::('i'::('n'::('s'::[]))))))))) :: ((('c'::('o'::('m'::('p'::('l'::('e'::('x'::[]))))))),
+    ('b'::('u'::('i'::('l'::('t'::('i'::('n'::('s'::[]))))))))) :: ((('c'::('o'::('p'::('y'::('r'::('i'::('g'::('h'::('t'::[]))))))))),
+    ('_'::('s'::('i'::('t'::('e'::('b'::('u'::('i'::('l'::('t'::('i'::('n'::('s'::[])))))))))))))) :: ((('c'::('r'::('e'::('d'::('i'::('t'::('s'::[]))))))),
+    ('_'::('s'::('i'::('t'::('e'::('b'::('u'::('i'::('l'::('t'::('i'::('n'::('s'::[])))))))))))))) :: ((('d'::('e'::('l'::('a'::('t'::('t'::('r'::[]))))))),
+    ('b'::('u'::('i'::('l'::('t'::('i'::('n'::('s'::[]))))))))) :: ((('d'::('i'::('c'::('t'::[])))),
+    ('b'::('u'::('i'::('l'::('t'::('i'::('n'::('s'::[]))))))))) :: ((('d'::('i'::('r'::[]))),
+    ('b'::('u'::('i'::('l'::('t'::('i'::('n'::('s'::[]))))))))) :: ((('d'::('i'::('v'::('m'::('o'::('d'::[])))))),
+    ('b'::('u'::('i'::('l'::('t'::('i'::('n'::('s'::[]))))))))) :: ((('e'::('n'::('u'::('m'::('e'::('r'::('a'::('t'::('e'::[]))))))))),
+    ('b'::('u'::('i'::('l'::('t'::('i'::('n'::('s'::[]))))))))) :: ((('e'::('v'::('a'::('l'::[])))),
+    ('b'::('u'::('i'::('l'::('t'::('i'::('n'::('s'::[]))))))))) :: ((('e'::('x'::('e'::('c'::[])))),
+    ('b'::('u'::('i'::('l'::('t'::('i'::('n'::('s'::[]))))))))) :: ((('e'::('x'::('i'::('t'::[])))),
+    ('_'::('s'::('i'::('t'::('e'::('b'::('u'::('i'::('l'::('t'::('i'::('n'::('s'::[])))))))))))))) :: ((('f'::('i'::('l'::('t'::('e'::('r'::[])))))),
+    ('b'::('u'::('i'::('l'::('t'::('i'::('n'::('s'::[]))))))))) :: ((('f'::('l'::('o'::('a'::('t'::[]))))),
+    ('b'::('u'::('i'::('l'::('t'::('i'::('n'::('s'::[]))))))))) :: ((('f'::('o'::('r'::('m'::('a'::('t'::[])))))),
+    ('b'::('u'::('i'::('l'::('t'::('i'::('n'::('s'::[]))))))))) :: ((('f'::('r'::('o'::('z'::('e'::('n'::('s'::('e'::('t'::[]))))))))),
+    ('b'::('u'::('i'::('l'::('t'::('i'::('n'::('s'::[]))))))))) :: ((('g'::('e'::('t'::('a'::('t'::('t'::('r'::[]))))))),
+    ('b'::('u'::('i'::('l'::('t'::('i'::('n'::('s'::[]))))))))) :: ((('g'::('l'::('o'::('b'::('a'::('l'::('s'::[]))))))),
+    ('b'::('u'::('i'::('l'::('t'::('i'::('n'::('s'::[]))))))))) :: ((('h'::('a'::('s'::('a'::('t'::('t'::('r'::[]))))))),
+    ('b'::('u'::('i'::('l'::('t'::('i'::('n'::('s'::[]))))))))) :: ((('h'::('a'::('s'::('h'::[])))),
+    ('b'::('u'::('i'::('l'::('t'::('i'::('n'::('s'::[]))))))))) :: ((('h'::('e'::('l'::('p'::[])))),
+    ('_'::('s'::('i'::('t'::('e'::('b'::('u'::('i'::('l'::('t'::('i'::('n'::('s'::[])))))))))))))) :: ((('h'::('e'::('x'::[]))),
+    ('b'::('u'::('i'::('l'::('t'::('i'::('n'::('s'::[]))))))))) :: ((('i'::('d'::[])),
+    ('b'::('u'::('i'::('l'::('t'::('i'::('n'::('s'::[]))))))))) :: ((('i'::('n'::('p'::('u'::('t'::[]))))),
+    ('b'::('u'::('i'::('l'::('t'::('i'::('n'::('s'::[]))))))))) :: ((('i'::('n'::('t'::[]))),
+    ('b'::('u'::('i'::('l'::('t'::('i'::('n'::('s'::[]))))))))) :: ((('i'::('s'::('i'::('n'::('s'::('t'::('a'::('n'::('c'::('e'::[])))))))))),
+    ('b'::('u'::('i'::('l'::('t'::('i'::('n'::('s'::[]))))))))) :: ((('i'::('s'::('s'::('u'::('b'::('c'::('l'::('a'::('s'::('s'::[])))))))))),
+    ('b'::('u'::('i'::('l'::('t'::('i'::('n'::('s'::[]))))))))) :: ((('i'::('t'::('e'::('r'::[])))),
+    ('b'::('u'::('i'::('l'::('t'::('i'::('n'::('s'::[]))))))))) :: ((('l'::('e'::('n'::[]))),
+    ('b'::('u'::('i'::('l'::('t'::('i'::('n'::('s'::[]))))))))) :: ((('l'::('i'::('c'::('e'::('n'::('s'::('e'::[]))))))),
+    ('_'::('s'::('i'::('t'::('e'::('b'::('u'::('i'::('l'::('t'::('i'::('n'::('s'::[])))))))))))))) :: ((('l'::('i'::('s'::('t'::[])))),
+    ('b'::('u'::('i'::('l'::('t'::('i'::('n'::('s'::[]))))))))) :: ((('l'::('o'::('c'::('a'::('l'::('s'::[])))))),
+    ('b'::('u'::('i'::('l'::('t'::('i'::('n'::('s'::[]))))))))) :: ((('m'::('a'::('p'::[]))),
+    ('b'::('u'::('i'::('l'::('t'::('i'::('n'::('s'::[]))))))))) :: ((('m'::('a'::('x'::[]))),
+    ('b'::('u'::('i'::('l'::('t'::('i'::('n'::('s'::[]))))))))) :: ((('m'::('e'::('m'::('o'::('r'::('y'::('v'::('i'::('e'::('w'::[])))))))))),
+    ('b'::('u'::('i'::('l'::('t'::('i'::('n'::('s'::[]))))))))) :: ((('m'::('i'::('n'::[]))),
+    ('b'::('u'::('i'::('l'::('t'::('i'::('n'::('s'::[]))))))))) :: ((('n'::('e'::('x'::('t'::[])))),
+    ('b'::('u'::('i'::('l'::('t'::('i'::('n'::('s'::[]))))))))) :: ((('o'::('b'::('j'::('e'::('c'::('t'::[])))))),
+    ('b'::('u'::('i'::('l'::('t'::('i'::('n'::('s'::[]))))))))) :: ((('o'::('c'::('t'::[]))),
+    ('b'::('u'::('i'::('l'::('t'::('i'::('n'::('s'::[]))))))))) :: ((('o'::('p'::('e'::('n'::[])))),
+    ('_'::('i'::('o'::[])))) :: ((('o'::('r'::('d'::[]))),
+    ('b'::('u'::('i'::('l'::('t'::('i'::('n'::('s'::[]))))))))) :: ((('p'::('o'::('w'::[]))),
+    ('b'::('u'::('i'::('l'::('t'::('i'::('n'::('s'::[]))))))))) :: ((('p'::('r'::('i'::('n'::('t'::[]))))),
+    ('b'::('u'::('i'::('l'::('t'::('i'::('n'::('s'::[]))))))))) :: ((('p'::('r'::('o'::('p'::('e'::('r'::('t'::('y'::[])))))))),
+    ('b'::('u'::('i'::('l'::('t'::('i'::('n'::('s'::[]))))))))) :: ((('q'::('u'::('i'::('t'::[])))),
+    ('_'::('s'::('i'::('t'::('e'::('b'::('u'::('i'::('l'::('t'::('i'::('n'::('s'::[])))))))))))))) :: ((('r'::('a'::('n'::('g'::('e'::[]))))),
+    ('b'::('u'::('i'::('l'::('t'::('i'::('n'::('s'::[]))))))))) :: ((('r'::('e'::('p'::('r'::[])))),
+    ('b'::('u'::('i'::('l'::('t'::('i'::('n'::('s'::[]))))))))) :: ((('r'::('e'::('v'::('e'::('r'::('s'::('e'::('d'::[])))))))),
+    ('b'::('u'::('i'::('l'::('t'::('i'::('n'::('s'::[]))))))))) :: ((('r'::('o'::('u'::('n'::('d'::[]))))),
+    ('b'::('u'::('i'::('l'::('t'::('i'::('n'::('s'::[]))))))))) :: ((('s'::('e'::('t'::[]))),
+    ('b'::('u'::('i'::('l'::('t'::('i'::('n'::('s'::[]))))))))) :: ((('s'::('e'::('t'::('a'::('t'::('t'::('r'::[]))))))),
+    ('b'::('u'::('i'::('l'::('t'::('i'::('n'::('s'::[]))))))))) :: ((('s'::('l'::('i'::('c'::('e'::[]))))),
+    ('b'::('u'::('i'::('l'::('t'::('i'::('n'::('s'::[]))))))))) :: ((('s'::('o'::('r'::('t'::('e'::('d'::[])))))),
+    ('b'::('u'::('i'::('l'::('t'::('i'::('n'::('s'::[]))))))))) :: ((('s'::('t'::('a'::('t'::('i'::('c'::('m'::('e'::('t'::('h'::('o'::('d'::[])))))))))))),
+    ('b'::('u'::('i'::('l'::('t'::('i'::('n'::('s'::[]))))))))) :: ((('s'::('t'::('r'::[]))),
+    ('b'::('u'::('i'::('l'::('t'::('i'::('n'::('s'::[]))))))))) :: ((('s'::('u'::('m'::[]))),
+    ('b'::('u'::('i'::('l'::('t'::('i'::('n'::('s'::[]))))))))) :: ((('s'::('u'::('p'::('e'::('r'::[]))))),
+    ('b'::('u'::('i'::('l'::('t'::('i'::('n'::('s'::[]))))))))) :: ((('t'::('u'::('p'::('l'::('e'::[]))))),
+    ('b'::('u'::('i'::('l'::('t'::('i'::('n'::('s'::[]))))))))) :: ((('t'::('y'::('p'::('e'::[])))),
+    ('b'::('u'::('i'::('l'::('t'::('i'::('n'::('s'::[]))))))))) :: ((('v'::('a'::('r'::('s'::[])))),
+    ('b'::('u'::('i'::('l'::('t'::('i'::('n'::('s'::[]))))))))) :: ((('z'::('i'::('p'::[]))),
+    ('b'::('u'::('i'::('l'::('t'::('i'::('n'::('s'::[]))))))))) :: []))))))))))))))))))))))))))))))))))))))))))))))))))))))))))))))))))))))))))))))))))))))))))))))))))))))))))))))))))))))))))))))))))))))))))))))))))))))))))))
 
 (** val documented : char list list **)
 
 let documented =
-  []
+  ('s'::('i'::('n'::[]))) :: (('c'::('o'::('s'::[]))) :: (('t'::('a'::('n'::[]))) :: (('a'::('c'::('o'::('s'::[])))) :: (('a'::('s'::('i'::('n'::[])))) :: (('a'::('t'::('a'::('n'::[])))) :: (('a'::('t'::('a'::('n'::('2'::[]))))) :: (('s'::('i'::('n'::('h'::[])))) :: (('c'::('o'::('s'::('h'::[])))) :: (('t'::('a'::('n'::('h'::[])))) :: (('a'::('s'::('i'::('n'::('h'::[]))))) :: (('a'::('c'::('o'::('s'::('h'::[]))))) :: (('a'::('t'::('a'::('n'::('h'::[]))))) :: (('e'::('x'::('p'::[]))) :: (('l'::('d'::('e'::('x'::('p'::[]))))) :: (('l'::('o'::('g'::[]))) :: (('l'::('n'::[])) :: (('l'::('o'::('g'::('1'::('0'::[]))))) :: (('e'::('x'::('p'::('2'::[])))) :: (('e'::('x'::('p'::('m'::('1'::[]))))) :: (('i'::('l'::('o'::('g'::('b'::[]))))) :: (('l'::('o'::('g'::('1'::('p'::[]))))) :: (('l'::('o'::('g'::('2'::[])))) :: (('s'::('c'::('a'::('l'::('b'::('n'::[])))))) :: (('s'::('c'::('a'::('l'::('b'::('l'::('n'::[]))))))) :: (('p'::('o'::('w'::[]))) :: (('s'::('q'::('r'::('t'::[])))) :: (('c'::('b'::('r'::('t'::[])))) :: (('h'::('y'::('p'::('o'::('t'::[]))))) :: (('e'::('r'::('f'::[]))) :: (('e'::('r'::('f'::('c'::[])))) :: (('t'::('g'::('a'::('m'::('m'::('a'::[])))))) :: (('l'::('g'::('a'::('m'::('m'::('a'::[])))))) :: (('c'::('e'::('i'::('l'::[])))) :: (('f'::('l'::('o'::('o'::('r'::[]))))) :: (('f'::('m'::('o'::('d'::[])))) :: (('t'::('r'::('u'::('n'::('c'::[]))))) :: (('r'::('o'::('u'::('n'::('d'::[]))))) :: (('r'::('i'::('n'::('t'::[])))) :: (('n'::('e'::('a'::('r'::('b'::('y'::('i'::('n'::('t'::[]))))))))) :: (('r'::('e'::('m'::('a'::('i'::('n'::('d'::('e'::('r'::[]))))))))) :: (('r'::('e'::('m'::('q'::('u'::('o'::[])))))) :: (('c'::('o'::('p'::('y'::('s'::('i'::('g'::('n'::[])))))))) :: (('n'::('a'::('n'::[]))) :: (('n'::('e'::('x'::('t'::('a'::('f'::('t'::('e'::('r'::[]))))))))) :: (('n'::('e'::('x'::('t'::('t'::('o'::('w'::('a'::('r'::('d'::[])))))))))) :: (('f'::('d'::('i'::('m'::[])))) :: (('f'::('m'::('a'::('x'::[])))) :: (('f'::('m'::('i'::('n'::[])))) :: (('f'::('a'::('b'::('s'::[])))) :: (('a'::('b'::('s'::[]))) :: (('f'::('m'::('a'::[]))) :: [])))))))))))))))))))))))))))))))))))))))))))))))))))
 
 (** val math_env : menv **)
 
 let math_env =
   { e_rows = math_rows; e_module = module_names; e_builtins = builtin_names }
+
+type expr =
+| EName of char list
+| EConst of char list
+| EAttr of expr * char list
+| ECall of expr * expr list
+| ELam of char list list * expr
+| EOp of char list * expr list
+
+type bval =
+| BAst of expr
+| BVal of nat
+
+type frame = (char list * bval) list
+
+type frames = frame list
+
+(** val lookup_frame : frame -> char list -> bval option **)
+
+let rec lookup_frame f x =
+  match f with
+  | [] -> None
+  | p :: r -> let (y, v) = p in if eqb0 x y then Some v else lookup_frame r x
+
+(** val lookup : frames -> char list -> bval option **)
+
+let rec lookup fr x =
+  match fr with
+  | [] -> None
+  | f :: r ->
+    (match lookup_frame f x with
+     | Some v -> Some v
+     | None -> lookup r x)
+
+(** val define_all : char list list -> bval list -> frame -> frame **)
+
+let rec define_all ps vs f =
+  match ps with
+  | [] -> f
+  | p :: ps' ->
+    (match vs with
+     | [] -> f
+     | v :: vs' -> define_all ps' vs' ((p, v) :: f))
+
+type cexpr =
+| CFree of char list
+| CVal of nat
+| CConst of char list
+| CAttr of cexpr * char list
+| CCall of cexpr * cexpr list
+| CLam of nat * cexpr
+| COp of char list * cexpr list
+
+(** val all_some : 'a1 option list -> 'a1 list option **)
+
+let rec all_some = function
+| [] -> Some []
+| o :: r ->
+  (match o with
+   | Some a ->
+     (match all_some r with
+      | Some r' -> Some (a :: r')
+      | None -> None)
+   | None -> None)
+
+(** val resolve0 : nat -> frames -> nat -> expr -> cexpr option **)
+
+let rec resolve0 fuel fr d e =
+  match fuel with
+  | O -> None
+  | S f ->
+    (match e with
+     | EName x ->
+       (match lookup fr x with
+        | Some b ->
+          (match b with
+           | BAst a -> resolve0 f fr d a
+           | BVal l -> Some (CVal l))
+        | None -> Some (CFree x))
+     | EConst c -> Some (CConst c)
+     | EAttr (e1, a) ->
+       option_map (fun r -> CAttr (r, a)) (resolve0 f fr d e1)
+     | ECall (g, args) ->
+       (match g with
+        | ELam (ps, body) ->
+          resolve0 f ((define_all ps (map (fun x -> BAst x) args) []) :: fr)
+            d body
+        | _ ->
+          (match resolve0 f fr d g with
+           | Some rg ->
+             (match all_some (map (resolve0 f fr d) args) with
+              | Some ra -> Some (CCall (rg, ra))
+              | None -> None)
+           | None -> None))
+     | ELam (ps, body) ->
+       option_map (fun x -> CLam ((length ps), x))
+         (resolve0 f
+           ((define_all ps (map (fun x -> BVal x) (seq d (length ps))) []) :: fr)
+           (add d (length ps)) body)
+     | EOp (op, args) ->
+       option_map (fun x -> COp (op, x))
+         (all_some (map (resolve0 f fr d) args)))
+
+(** val empty_stack : frames **)
+
+let empty_stack =
+  [] :: []
+
+(** val resolve_top : nat -> expr -> cexpr option **)
+
+let resolve_top fuel e =
+  resolve0 fuel empty_stack O e
+
+(** val rewrite :
+    char list list -> char list list -> char list list -> expr -> expr **)
+
+let rec rewrite k mO mC = function
+| EAttr (e1, a) -> EAttr ((rewrite k mO mC e1), a)
+| ECall (g, args) ->
+  let args' = map (rewrite k mO mC) args in
+  (match g with
+   | EName f ->
+     if mem_str f k
+     then ECall ((EConst
+            (append ('<'::('f'::('n'::(':'::[])))) (append f ('>'::[])))),
+            args')
+     else ECall ((EName f), args')
+   | EAttr (e0, m) ->
+     (match e0 with
+      | EName x ->
+        if mem_str m mO
+        then ECall ((EConst
+               (append
+                 ('<'::('m'::('e'::('t'::('h'::('o'::('d'::(':'::[]))))))))
+                 (append m ('>'::[])))), ((EName x) :: args'))
+        else if mem_str m mC
+             then ECall ((EConst
+                    (append ('<'::('c'::('p'::('p'::(':'::[])))))
+                      (append m ('>'::[])))), args')
+             else ECall ((EAttr ((EName x), m)), args')
+      | _ -> ECall ((rewrite k mO mC g), args'))
+   | _ -> ECall ((rewrite k mO mC g), args'))
+| ELam (ps, b) -> ELam (ps, (rewrite k mO mC b))
+| EOp (op, args) -> EOp (op, (map (rewrite k mO mC) args))
+| x -> x
+
+(** val d_expr : sexp -> expr option **)
+
+let rec d_expr s =
+  let go =
+    let rec go = function
+    | [] -> Some []
+    | a :: r ->
+      (match d_expr a with
+       | Some a' ->
+         (match go r with
+          | Some r' -> Some (a' :: r')
+          | None -> None)
+       | None -> None)
+    in go
+  in
+  (match s with
+   | SAtom _ -> None
+   | SList l ->
+     (match l with
+      | [] -> None
+      | s0 :: l0 ->
+        (match s0 with
+         | SAtom s1 ->
+           (match s1 with
+            | [] -> None
+            | a0::s2 ->
+              (* If this appears, you're using Ascii internals. Please don't *)
+ (fun f c ->
+  let n = Char.code c in
+  let h i = (n land (1 lsl i)) <> 0 in
+  f (h 0) (h 1) (h 2) (h 3) (h 4) (h 5) (h 6) (h 7))
+                (fun b0 b1 b2 b3 b4 b5 b6 b7 ->
+                if b0
+                then if b1
+                     then if b2
+                          then if b3
+                               then if b4
+                                    then None
+                                    else if b5
+                                         then if b6
+                                              then if b7
+                                                   then None
+                                                   else (match s2 with
+                                                         | [] -> None
+                                                         | a::s3 ->
+                                                           (* If this appears, you're using Ascii internals. Please don't *)
+ (fun f c ->
+  let n = Char.code c in
+  let h i = (n land (1 lsl i)) <> 0 in
+  f (h 0) (h 1) (h 2) (h 3) (h 4) (h 5) (h 6) (h 7))
+                                                             (fun b b8 b9 b10 b11 b12 b13 b14 ->
+                                                             if b
+                                                             then None
+                                                             else if b8
+                                                                  then None
+                                                                  else 
+                                                                    if b9
+                                                                    then None
+                                                                    else 
+                                                                    if b10
+                                                                    then None
+                                                                    else 
+                                                                    if b11
+                                                                    then 
+                                                                    if b12
+                                                                    then 
+                                                                    if b13
+                                                                    then 
+                                                                    if b14
+                                                                    then None
+                                                                    else 
+                                                                    (match s3 with
+                                                                    | [] ->
+                                                                    (match l0 with
+                                                                    | [] ->
+                                                                    None
+                                                                    | s4 :: l1 ->
+                                                                    (match s4 with
+                                                                    | SAtom op ->
+                                                                    (match l1 with
+                                                                    | [] ->
+                                                                    None
+                                                                    | s5 :: l2 ->
+                                                                    (match s5 with
+                                                                    | SAtom _ ->
+                                                                    None
+                                                                    | SList args ->
+                                                                    (match l2 with
+                                                                    | [] ->
+                                                                    option_map
+                                                                    (fun x ->
+                                                                    EOp (op,
+                                                                    x))
+                                                                    (go args)
+                                                                    | _ :: _ ->
+                                                                    None)))
+                                                                    | SList _ ->
+                                                                    None))
+                                                                    | _::_ ->
+                                                                    None)
+                                                                    else None
+                                                                    else None
+                                                                    else None)
+                                                             a)
+                                              else None
+                                         else None
+                               else None
+                          else if b3
+                               then None
+                               else if b4
+                                    then None
+                                    else if b5
+                                         then if b6
+                                              then if b7
+                                                   then None
+                                                   else (match s2 with
+                                                         | [] -> None
+                                                         | a::s3 ->
+                                                           (* If this appears, you're using Ascii internals. Please don't *)
+ (fun f c ->
+  let n = Char.code c in
+  let h i = (n land (1 lsl i)) <> 0 in
+  f (h 0) (h 1) (h 2) (h 3) (h 4) (h 5) (h 6) (h 7))
+                                                             (fun b b8 b9 b10 b11 b12 b13 b14 ->
+                                                             if b
+                                                             then if b8
+                                                                  then 
+                                                                    if b9
+                                                                    then 
+                                                                    if b10
+                                                                    then 
+                                                                    if b11
+                                                                    then None
+                                                                    else 
+                                                                    if b12
+                                                                    then 
+                                                                    if b13
+                                                                    then 
+                                                                    if b14
+                                                                    then None
+                                                                    else 
+                                                                    (match s3 with
+                                                                    | [] ->
+                                                                    None
+                                                                    | a1::s4 ->
+                                                                    (* If this appears, you're using Ascii internals. Please don't *)
+ (fun f c ->
+  let n = Char.code c in
+  let h i = (n land (1 lsl i)) <> 0 in
+  f (h 0) (h 1) (h 2) (h 3) (h 4) (h 5) (h 6) (h 7))
+                                                                    (fun b15 b16 b17 b18 b19 b20 b21 b22 ->
+                                                                    if b15
+                                                                    then None
+                                                                    else 
+                                                                    if b16
+                                                                    then 
+                                                                    if b17
+                                                                    then 
+                                                                    if b18
+                                                                    then 
+                                                                    if b19
+                                                                    then None
+                                                                    else 
+                                                                    if b20
+                                                                    then 
+                                                                    if b21
+                                                                    then 
+                                                                    if b22
+                                                                    then None
+                                                                    else 
+                                                                    (match s4 with
+                                                                    | [] ->
+                                                                    None
+                                                                    | a2::s5 ->
+                                                                    (* If this appears, you're using Ascii internals. Please don't *)
+ (fun f c ->
+  let n = Char.code c in
+  let h i = (n land (1 lsl i)) <> 0 in
+  f (h 0) (h 1) (h 2) (h 3) (h 4) (h 5) (h 6) (h 7))
+                                                                    (fun b23 b24 b25 b26 b27 b28 b29 b30 ->
+                                                                    if b23
+                                                                    then 
+                                                                    if b24
+                                                                    then 
+                                                                    if b25
+                                                                    then None
+                                                                    else 
+                                                                    if b26
+                                                                    then None
+                                                                    else 
+                                                                    if b27
+                                                                    then 
+                                                                    if b28
+                                                                    then 
+                                                                    if b29
+                                                                    then 
+                                                                    if b30
+                                                                    then None
+                                                                    else 
+                                                                    (match s5 with
+                                                                    | [] ->
+                                                                    None
+                                                                    | a3::s6 ->
+                                                                    (* If this appears, you're using Ascii internals. Please don't *)
+ (fun f c ->
+  let n = Char.code c in
+  let h i = (n land (1 lsl i)) <> 0 in
+  f (h 0) (h 1) (h 2) (h 3) (h 4) (h 5) (h 6) (h 7))
+                                                                    (fun b31 b32 b33 b34 b35 b36 b37 b38 ->
+                                                                    if b31
+                                                                    then None
+                                                                    else 
+                                                                    if b32
+                                                                    then None
+                                                                    else 
+                                                                    if b33
+                                                                    then 
+                                                                    if b34
+                                                                    then None
+                                                                    else 
+                                                                    if b35
+                                                                    then 
+                                                                    if b36
+                                                                    then 
+                                                                    if b37
+                                                                    then 
+                                                                    if b38
+                                                                    then None
+                                                                    else 
+                                                                    (match s6 with
+                                                                    | [] ->
+                                                                    (match l0 with
+                                                                    | [] ->
+                                                                    None
+                                                                    | s7 :: l1 ->
+                                                                    (match s7 with
+                                                                    | SAtom c ->
+                                                                    (match l1 with
+                                                                    | [] ->
+                                                                    Some
+                                                                    (EConst c)
+                                                                    | _ :: _ ->
+                                                                    None)
+                                                                    | SList _ ->
+                                                                    None))
+                                                                    | _::_ ->
+                                                                    None)
+                                                                    else None
+                                                                    else None
+                                                                    else None
+                                                                    else None)
+                                                                    a3)
+                                                                    else None
+                                                                    else None
+                                                                    else None
+                                                                    else None
+                                                                    else None)
+                                                                    a2)
+                                                                    else None
+                                                                    else None
+                                                                    else None
+                                                                    else None
+                                                                    else None)
+                                                                    a1)
+                                                                    else None
+                                                                    else None
+                                                                    else None
+                                                                    else None
+                                                                  else 
+                                                                    if b9
+                                                                    then None
+                                                                    else 
+                                                                    if b10
+                                                                    then None
+                                                                    else 
+                                                                    if b11
+                                                                    then None
+                                                                    else 
+                                                                    if b12
+                                                                    then 
+                                                                    if b13
+                                                                    then 
+                                                                    if b14
+                                                                    then None
+                                                                    else 
+                                                                    (match s3 with
+                                                                    | [] ->
+                                                                    None
+                                                                    | a1::s4 ->
+                                                                    (* If this appears, you're using Ascii internals. Please don't *)
+ (fun f c ->
+  let n = Char.code c in
+  let h i = (n land (1 lsl i)) <> 0 in
+  f (h 0) (h 1) (h 2) (h 3) (h 4) (h 5) (h 6) (h 7))
+                                                                    (fun b15 b16 b17 b18 b19 b20 b21 b22 ->
+                                                                    if b15
+                                                                    then None
+                                                                    else 
+                                                                    if b16
+                                                                    then None
+                                                                    else 
+                                                                    if b17
+                                                                    then 
+                                                                    if b18
+                                                                    then 
+                                                                    if b19
+                                                                    then None
+                                                                    else 
+                                                                    if b20
+                                                                    then 
+                                                                    if b21
+                                                                    then 
+                                                                    if b22
+                                                                    then None
+                                                                    else 
+                                                                    (match s4 with
+                                                                    | [] ->
+                                                                    None
+                                                                    | a2::s5 ->
+                                                                    (* If this appears, you're using Ascii internals. Please don't *)
+ (fun f c ->
+  let n = Char.code c in
+  let h i = (n land (1 lsl i)) <> 0 in
+  f (h 0) (h 1) (h 2) (h 3) (h 4) (h 5) (h 6) (h 7))
+                                                                    (fun b23 b24 b25 b26 b27 b28 b29 b30 ->
+                                                                    if b23
+                                                                    then None
+                                                                    else 
+                                                                    if b24
+                                                                    then None
+                                                                    else 
+                                                                    if b25
+                                                                    then 
+                                                                    if b26
+                                                                    then 
+                                                                    if b27
+                                                                    then None
+                                                                    else 
+                                                                    if b28
+                                                                    then 
+                                                                    if b29
+                                                                    then 
+                                                                    if b30
+                                                                    then None
+                                                                    else 
+                                                                    (match s5 with
+                                                                    | [] ->
+                                                                    (match l0 with
+                                                                    | [] ->
+                                                                    None
+                                                                    | g :: l1 ->
+                                                                    (match l1 with
+                                                                    | [] ->
+                                                                    None
+                                                                    | s6 :: l2 ->
+                                                                    (match s6 with
+                                                                    | SAtom _ ->
+                                                                    None
+                                                                    | SList args ->
+                                                                    (match l2 with
+                                                                    | [] ->
+                                                                    (match 
+                                                                    d_expr g with
+                                                                    | Some g' ->
+                                                                    (match 
+                                                                    go args with
+                                                                    | Some a' ->
+                                                                    Some
+                                                                    (ECall
+                                                                    (g', a'))
+                                                                    | None ->
+                                                                    None)
+                                                                    | None ->
+                                                                    None)
+                                                                    | _ :: _ ->
+                                                                    None))))
+                                                                    | _::_ ->
+                                                                    None)
+                                                                    else None
+                                                                    else None
+                                                                    else None
+                                                                    else None)
+                                                                    a2)
+                                                                    else None
+                                                                    else None
+                                                                    else None
+                                                                    else None)
+                                                                    a1)
+                                                                    else None
+                                                                    else None
+                                                             else None)
+                                                             a)
+                                              else None
+                                         else None
+                     else if b2
+                          then None
+                          else if b3
+                               then None
+                               else if b4
+                                    then None
+                                    else if b5
+                                         then if b6
+                                              then if b7
+                                                   then None
+                                                   else (match s2 with
+                                                         | [] -> None
+                                                         | a1::s3 ->
+                                                           (* If this appears, you're using Ascii internals. Please don't *)
+ (fun f c ->
+  let n = Char.code c in
+  let h i = (n land (1 lsl i)) <> 0 in
+  f (h 0) (h 1) (h 2) (h 3) (h 4) (h 5) (h 6) (h 7))
+                                                             (fun b b8 b9 b10 b11 b12 b13 b14 ->
+                                                             if b
+                                                             then None
+                                                             else if b8
+                                                                  then None
+                                                                  else 
+                                                                    if b9
+                                                                    then 
+                                                                    if b10
+                                                                    then None
+                                                                    else 
+                                                                    if b11
+                                                                    then 
+                                                                    if b12
+                                                                    then 
+                                                                    if b13
+                                                                    then 
+                                                                    if b14
+                                                                    then None
+                                                                    else 
+                                                                    (match s3 with
+                                                                    | [] ->
+                                                                    None
+                                                                    | a2::s4 ->
+                                                                    (* If this appears, you're using Ascii internals. Please don't *)
+ (fun f c ->
+  let n = Char.code c in
+  let h i = (n land (1 lsl i)) <> 0 in
+  f (h 0) (h 1) (h 2) (h 3) (h 4) (h 5) (h 6) (h 7))
+                                                                    (fun b15 b16 b17 b18 b19 b20 b21 b22 ->
+                                                                    if b15
+                                                                    then None
+                                                                    else 
+                                                                    if b16
+                                                                    then None
+                                                                    else 
+                                                                    if b17
+                                                                    then 
+                                                                    if b18
+                                                                    then None
+                                                                    else 
+                                                                    if b19
+                                                                    then 
+                                                                    if b20
+                                                                    then 
+                                                                    if b21
+                                                                    then 
+                                                                    if b22
+                                                                    then None
+                                                                    else 
+                                                                    (match s4 with
+                                                                    | [] ->
+                                                                    None
+                                                                    | a3::s5 ->
+                                                                    (* If this appears, you're using Ascii internals. Please don't *)
+ (fun f c ->
+  let n = Char.code c in
+  let h i = (n land (1 lsl i)) <> 0 in
+  f (h 0) (h 1) (h 2) (h 3) (h 4) (h 5) (h 6) (h 7))
+                                                                    (fun b23 b24 b25 b26 b27 b28 b29 b30 ->
+                                                                    if b23
+                                                                    then None
+                                                                    else 
+                                                                    if b24
+                                                                    then 
+                                                                    if b25
+                                                                    then None
+                                                                    else 
+                                                                    if b26
+                                                                    then None
+                                                                    else 
+                                                                    if b27
+                                                                    then 
+                                                                    if b28
+                                                                    then 
+                                                                    if b29
+                                                                    then 
+                                                                    if b30
+                                                                    then None
+                                                                    else 
+                                                                    (match s5 with
+                                                                    | [] ->
+                                                                    (match l0 with
+                                                                    | [] ->
+                                                                    None
+                                                                    | e1 :: l1 ->
+                                                                    (match l1 with
+                                                                    | [] ->
+                                                                    None
+                                                                    | s6 :: l2 ->
+                                                                    (match s6 with
+                                                                    | SAtom a ->
+                                                                    (match l2 with
+                                                                    | [] ->
+                                                                    option_map
+                                                                    (fun e' ->
+                                                                    EAttr
+                                                                    (e', a))
+                                                                    (d_expr
+                                                                    e1)
+                                                                    | _ :: _ ->
+                                                                    None)
+                                                                    | SList _ ->
+                                                                    None)))
+                                                                    | _::_ ->
+                                                                    None)
+                                                                    else None
+                                                                    else None
+                                                                    else None
+                                                                    else None)
+                                                                    a3)
+                                                                    else None
+                                                                    else None
+                                                                    else None
+                                                                    else None)
+                                                                    a2)
+                                                                    else None
+                                                                    else None
+                                                                    else None
+                                                                    else None)
+                                                             a1)
+                                              else None
+                                         else None
+                else if b1
+                     then if b2
+                          then if b3
+                               then if b4
+                                    then None
+                                    else if b5
+                                         then if b6
+                                              then if b7
+                                                   then None
+                                                   else (match s2 with
+                                                         | [] -> None
+                                                         | a::s3 ->
+                                                           (* If this appears, you're using Ascii internals. Please don't *)
+ (fun f c ->
+  let n = Char.code c in
+  let h i = (n land (1 lsl i)) <> 0 in
+  f (h 0) (h 1) (h 2) (h 3) (h 4) (h 5) (h 6) (h 7))
+                                                             (fun b b8 b9 b10 b11 b12 b13 b14 ->
+                                                             if b
+                                                             then if b8
+                                                                  then None
+                                                                  else 
+                                                                    if b9
+                                                                    then None
+                                                                    else 
+                                                                    if b10
+                                                                    then None
+                                                                    else 
+                                                                    if b11
+                                                                    then None
+                                                                    else 
+                                                                    if b12
+                                                                    then 
+                                                                    if b13
+                                                                    then 
+                                                                    if b14
+                                                                    then None
+                                                                    else 
+                                                                    (match s3 with
+                                                                    | [] ->
+                                                                    None
+                                                                    | a1::s4 ->
+                                                                    (* If this appears, you're using Ascii internals. Please don't *)
+ (fun f c ->
+  let n = Char.code c in
+  let h i = (n land (1 lsl i)) <> 0 in
+  f (h 0) (h 1) (h 2) (h 3) (h 4) (h 5) (h 6) (h 7))
+                                                                    (fun b15 b16 b17 b18 b19 b20 b21 b22 ->
+                                                                    if b15
+                                                                    then 
+                                                                    if b16
+                                                                    then None
+                                                                    else 
+                                                                    if b17
+                                                                    then 
+                                                                    if b18
+                                                                    then 
+                                                                    if b19
+                                                                    then None
+                                                                    else 
+                                                                    if b20
+                                                                    then 
+                                                                    if b21
+                                                                    then 
+                                                                    if b22
+                                                                    then None
+                                                                    else 
+                                                                    (match s4 with
+                                                                    | [] ->
+                                                                    None
+                                                                    | a2::s5 ->
+                                                                    (* If this appears, you're using Ascii internals. Please don't *)
+ (fun f c ->
+  let n = Char.code c in
+  let h i = (n land (1 lsl i)) <> 0 in
+  f (h 0) (h 1) (h 2) (h 3) (h 4) (h 5) (h 6) (h 7))
+                                                                    (fun b23 b24 b25 b26 b27 b28 b29 b30 ->
+                                                                    if b23
+                                                                    then 
+                                                                    if b24
+                                                                    then None
+                                                                    else 
+                                                                    if b25
+                                                                    then 
+                                                                    if b26
+                                                                    then None
+                                                                    else 
+                                                                    if b27
+                                                                    then None
+                                                                    else 
+                                                                    if b28
+                                                                    then 
+                                                                    if b29
+                                                                    then 
+                                                                    if b30
+                                                                    then None
+                                                                    else 
+                                                                    (match s5 with
+                                                                    | [] ->
+                                                                    (match l0 with
+                                                                    | [] ->
+                                                                    None
+                                                                    | s6 :: l1 ->
+                                                                    (match s6 with
+                                                                    | SAtom x ->
+                                                                    (match l1 with
+                                                                    | [] ->
+                                                                    Some
+                                                                    (EName x)
+                                                                    | _ :: _ ->
+                                                                    None)
+                                                                    | SList _ ->
+                                                                    None))
+                                                                    | _::_ ->
+                                                                    None)
+                                                                    else None
+                                                                    else None
+                                                                    else None
+                                                                    else None)
+                                                                    a2)
+                                                                    else None
+                                                                    else None
+                                                                    else None
+                                                                    else None
+                                                                    else None)
+                                                                    a1)
+                                                                    else None
+                                                                    else None
+                                                             else None)
+                                                             a)
+                                              else None
+                                         else None
+                               else None
+                          else None
+                     else if b2
+                          then if b3
+                               then if b4
+                                    then None
+                                    else if b5
+                                         then if b6
+                                              then if b7
+                                                   then None
+                                                   else (match s2 with
+                                                         | [] -> None
+                                                         | a::s3 ->
+                                                           (* If this appears, you're using Ascii internals. Please don't *)
+ (fun f c ->
+  let n = Char.code c in
+  let h i = (n land (1 lsl i)) <> 0 in
+  f (h 0) (h 1) (h 2) (h 3) (h 4) (h 5) (h 6) (h 7))
+                                                             (fun b8 b9 b10 b11 b12 b13 b14 b15 ->
+                                                             if b8
+                                                             then if b9
+                                                                  then None
+                                                                  else 
+                                                                    if b10
+                                                                    then None
+                                                                    else 
+                                                                    if b11
+                                                                    then None
+                                                                    else 
+                                                                    if b12
+                                                                    then None
+                                                                    else 
+                                                                    if b13
+                                                                    then 
+                                                                    if b14
+                                                                    then 
+                                                                    if b15
+                                                                    then None
+                                                                    else 
+                                                                    (match s3 with
+                                                                    | [] ->
+                                                                    None
+                                                                    | a1::s4 ->
+                                                                    (* If this appears, you're using Ascii internals. Please don't *)
+ (fun f c ->
+  let n = Char.code c in
+  let h i = (n land (1 lsl i)) <> 0 in
+  f (h 0) (h 1) (h 2) (h 3) (h 4) (h 5) (h 6) (h 7))
+                                                                    (fun b16 b17 b18 b19 b20 b21 b22 b23 ->
+                                                                    if b16
+                                                                    then 
+                                                                    if b17
+                                                                    then None
+                                                                    else 
+                                                                    if b18
+                                                                    then 
+                                                                    if b19
+                                                                    then 
+                                                                    if b20
+                                                                    then None
+                                                                    else 
+                                                                    if b21
+                                                                    then 
+                                                                    if b22
+                                                                    then 
+                                                                    if b23
+                                                                    then None
+                                                                    else 
+                                                                    (match s4 with
+                                                                    | [] ->
+                                                                    (match l0 with
+                                                                    | [] ->
+                                                                    None
+                                                                    | ps :: l1 ->
+                                                                    (match l1 with
+                                                                    | [] ->
+                                                                    None
+                                                                    | b :: l2 ->
+                                                                    (match l2 with
+                                                                    | [] ->
+                                                                    (match 
+                                                                    d_strs ps with
+                                                                    | Some ps' ->
+                                                                    (match 
+                                                                    d_expr b with
+                                                                    | Some b' ->
+                                                                    Some
+                                                                    (ELam
+                                                                    (ps', b'))
+                                                                    | None ->
+                                                                    None)
+                                                                    | None ->
+                                                                    None)
+                                                                    | _ :: _ ->
+                                                                    None)))
+                                                                    | _::_ ->
+                                                                    None)
+                                                                    else None
+                                                                    else None
+                                                                    else None
+                                                                    else None
+                                                                    else None)
+                                                                    a1)
+                                                                    else None
+                                                                    else None
+                                                             else None)
+                                                             a)
+                                              else None
+                                         else None
+                               else None
+                          else None)
+                a0)
+         | SList _ -> None)))
+
+(** val e_expr : expr -> sexp **)
+
+let rec e_expr = function
+| EName x -> s_tag ('n'::('a'::('m'::('e'::[])))) ((SAtom x) :: [])
+| EConst c -> s_tag ('c'::('o'::('n'::('s'::('t'::[]))))) ((SAtom c) :: [])
+| EAttr (e1, a) ->
+  s_tag ('a'::('t'::('t'::('r'::[])))) ((e_expr e1) :: ((SAtom a) :: []))
+| ECall (g, args) ->
+  s_tag ('c'::('a'::('l'::('l'::[])))) ((e_expr g) :: ((SList
+    (map e_expr args)) :: []))
+| ELam (ps, b) ->
+  s_tag ('l'::('a'::('m'::[]))) ((s_strs ps) :: ((e_expr b) :: []))
+| EOp (op, args) ->
+  s_tag ('o'::('p'::[])) ((SAtom op) :: ((SList (map e_expr args)) :: []))
+
+(** val e_cexpr : cexpr -> sexp **)
+
+let rec e_cexpr = function
+| CFree x -> s_tag ('f'::('r'::('e'::('e'::[])))) ((SAtom x) :: [])
+| CVal l -> s_tag ('v'::('a'::('l'::[]))) ((s_nat l) :: [])
+| CConst k -> s_tag ('c'::('o'::('n'::('s'::('t'::[]))))) ((SAtom k) :: [])
+| CAttr (e, a) ->
+  s_tag ('a'::('t'::('t'::('r'::[])))) ((e_cexpr e) :: ((SAtom a) :: []))
+| CCall (g, args) ->
+  s_tag ('c'::('a'::('l'::('l'::[])))) ((e_cexpr g) :: ((SList
+    (map e_cexpr args)) :: []))
+| CLam (n0, b) ->
+  s_tag ('l'::('a'::('m'::[]))) ((s_nat n0) :: ((e_cexpr b) :: []))
+| COp (op, args) ->
+  s_tag ('o'::('p'::[])) ((SAtom op) :: ((SList (map e_cexpr args)) :: []))
+
+(** val run_resolve : sexp -> sexp **)
+
+let run_resolve = function
+| SAtom _ -> bad_input
+| SList l ->
+  (match l with
+   | [] -> bad_input
+   | fu :: l0 ->
+     (match l0 with
+      | [] -> bad_input
+      | q :: l1 ->
+        (match l1 with
+         | [] ->
+           (match d_nat fu with
+            | Some fuel ->
+              (match d_expr q with
+               | Some e ->
+                 (match resolve_top fuel e with
+                  | Some c -> s_tag ('o'::('k'::[])) ((e_cexpr c) :: [])
+                  | None -> s_err ErrOutOfFuel)
+               | None -> bad_input)
+            | None -> bad_input)
+         | _ :: _ -> bad_input)))
+
+(** val run_rewrite : sexp -> sexp **)
+
+let run_rewrite = function
+| SAtom _ -> bad_input
+| SList l ->
+  (match l with
+   | [] -> bad_input
+   | k :: l0 ->
+     (match l0 with
+      | [] -> bad_input
+      | mo :: l1 ->
+        (match l1 with
+         | [] -> bad_input
+         | mc :: l2 ->
+           (match l2 with
+            | [] -> bad_input
+            | q :: l3 ->
+              (match l3 with
+               | [] ->
+                 (match d_strs k with
+                  | Some k0 ->
+                    (match d_strs mo with
+                     | Some mO ->
+                       (match d_strs mc with
+                        | Some mC ->
+                          (match d_expr q with
+                           | Some e ->
+                             s_tag ('o'::('k'::[]))
+                               ((e_expr (rewrite k0 mO mC e)) :: [])
+                           | None -> bad_input)
+                        | None -> bad_input)
+                     | None -> bad_input)
+                  | None -> bad_input)
+               | _ :: _ -> bad_input)))))
 
 (** val dispatch : char list -> sexp -> sexp **)
 
@@ -924,6 +2538,12 @@ let dispatch cmd arg =
   else if eqb0 cmd
             ('c'::('1'::('2'::('.'::('a'::('u'::('d'::('i'::('t'::[])))))))))
        then audit math_env documented
-       else s_tag
-              ('u'::('n'::('k'::('n'::('o'::('w'::('n'::('-'::('c'::('o'::('m'::('m'::('a'::('n'::('d'::[])))))))))))))))
-              ((SAtom cmd) :: [])
+       else if eqb0 cmd
+                 ('c'::('0'::('8'::('.'::('r'::('e'::('s'::('o'::('l'::('v'::('e'::[])))))))))))
+            then run_resolve arg
+            else if eqb0 cmd
+                      ('c'::('0'::('8'::('.'::('r'::('e'::('w'::('r'::('i'::('t'::('e'::[])))))))))))
+                 then run_rewrite arg
+                 else s_tag
+                        ('u'::('n'::('k'::('n'::('o'::('w'::('n'::('-'::('c'::('o'::('m'::('m'::('a'::('n'::('d'::[])))))))))))))))
+                        ((SAtom cmd) :: [])
